@@ -21,7 +21,7 @@ Lemma amsg_id_inj a b : Abs.mid cont (amsg a) = Abs.mid cont (amsg b) -> wm_id a
 Proof. cbn. apply Pos2Nat.inj. Qed.
 
 (* ---------- groups: the markers of the messages an event sent, then the event ---------- *)
-Definition group := (list wmsg * wmsg)%type.
+Notation group := (list wmsg * wmsg)%type (only parsing).
 Definition flat1 (g : group) : list entry := map ESent (fst g) ++ [EProc (snd g)].
 Definition flat (gs : list group) : list entry := flat_map flat1 gs.
 Definition ent (g : group) : Abs.entry cont := Abs.Build_entry cont (amsg (snd g)) (map amsg (fst g)).
@@ -457,28 +457,32 @@ Notation astep := (Abs.step cont cltb tltb lpstate n (AppAbs.s0 p) (ahandle p)).
 Notation aInv := (Abs.Inv cont n init0).
 Definition is_init (m : wmsg) : Prop := e_type (wm_ev m) = LP_INIT_TYPE.
 
+Definition stofg (l : nat) (gs : list group) : lpstate := Abs.stof cont lpstate (AppAbs.s0 p) (ahandle p) l (map ent gs).
+
+(* [g0]: the LP_INIT group while it is retained ([] after the first fossil collection); [gdone]: the groups fossil collection has
+   released so far (ghost: they only exist on the abstract side); [gs]: the retained groups *)
 Record R (w : worker) (a : Abs.abs cont) : Prop := {
   r_full : full p w;
   r_len : length (k_lps w) = n;
-  r_gvt : k_gvt w = 0%Z;
-  r_epoch : k_epoch w = 0 /\ forall l, l < n -> x_epoch (get_lp w l) = 0;
   r_mk0 : Mk0 (k_flags w) (pend w) (allmarks (k_lps w));
   r_no5 : No5 (k_flags w) (allprocs (k_lps w));
   r_reach : areach a;
-  r_hist : forall l, l < n -> exists ms im gs, x_hist (get_lp w l) = flat ((ms, im) :: gs) /\ is_init im /\
-             base (get_lp w l) = (S (length ms), AppAbs.s0 p l) /\ Abs.hist cont a l = map ent gs;
+  r_hist : forall l, l < n -> exists g0 gdone gs : list group, x_hist (get_lp w l) = flat (g0 ++ gs) /\
+             base (get_lp w l) = (length (flat g0), stofg l gdone) /\ Abs.hist cont a l = map ent (gdone ++ gs) /\
+             (forall g, In g gdone -> (Z.of_N (tm (snd g)) < k_gvt w)%Z /\ Abs.doomedb cont a (amsg (snd g)) = false) /\
+             ((exists ms im, g0 = [(ms, im)] /\ is_init im /\ gdone = []) \/ g0 = []);
   r_pool : forall x, In x (Abs.pool cont a) <-> exists y, Live (k_flags w) (pend w) y /\ x = amsg y;
   r_antis : forall i, In i (Abs.antis cont a) <-> exists j, Dm (k_flags w) (pend w) (allprocs (k_lps w)) j /\ i = Pos.to_nat j;
   r_nid : Abs.nid cont a = Pos.to_nat (k_next w)
 }.
 
-Lemma once_loc w : full p w -> k_gvt w = 0%Z -> Loc 0 (k_flags w) (pend w) (allprocs (k_lps w)) (allmarks (k_lps w)) (k_next w).
-Proof. intros F G. pose proof (f_once p w F) as H. unfold once in H. rewrite G in H. exact H. Qed.
+Lemma once_loc w : full p w -> Loc (k_gvt w) (k_flags w) (pend w) (allprocs (k_lps w)) (allmarks (k_lps w)) (k_next w).
+Proof. intros F. exact (f_once p w F). Qed.
 
 (* a processed message is cancelled on the abstract side exactly when its flag word says so *)
 Lemma doomed_iff w a y : R w a -> In y (allprocs (k_lps w)) -> (Abs.doomedb cont a (amsg y) = true <-> fl (k_flags w) y = 3%N).
 Proof.
-  intros Hr Hy. pose proof (once_loc w (r_full _ _ Hr) (r_gvt _ _ Hr)) as L.
+  intros Hr Hy. pose proof (once_loc w (r_full _ _ Hr)) as L.
   rewrite (Abs.doomedb_true cont). rewrite (r_antis _ _ Hr). split.
   - intros (j & (y' & Ey & H) & Ej). cbn [amsg Abs.mid] in Ej. apply Pos2Nat.inj in Ej. rewrite <- Ej in Ey.
     assert (Efl : fl (k_flags w) y' = fl (k_flags w) y) by (unfold fl; rewrite Ey; reflexivity).
@@ -490,7 +494,7 @@ Qed.
 Lemma dbefore_wbefore w a s y f : R w a -> In y (allprocs (k_lps w)) -> (forall z, wm_id z <> wm_id s -> fl f z = fl (k_flags w) z) -> wm_id y <> wm_id s ->
   fl f s = 2%N -> Abs.dbefore cont cltb tltb a (amsg s) (ent ([], y)) = wbefore f s y.
 Proof.
-  intros Hr Hy Hf Hne Hs. pose proof (once_loc w (r_full _ _ Hr) (r_gvt _ _ Hr)) as L.
+  intros Hr Hy Hf Hne Hs. pose proof (once_loc w (r_full _ _ Hr)) as L.
   unfold Abs.dbefore. cbn [ent Abs.em snd amsg Abs.mc].
   assert (Es : Z.land (Z.of_N (fl f s)) 1 = 0%Z) by (rewrite Hs; reflexivity).
   destruct (Abs.doomedb cont a (amsg y)) eqn:Ed.
@@ -511,16 +515,14 @@ Qed.
 
 (* operations that only move pending messages around leave the abstract state where it is *)
 Lemma R_perm w w' a : R w a -> full p w' -> Permutation (pend w) (pend w') -> k_flags w' = k_flags w -> k_lps w' = k_lps w ->
-  k_next w' = k_next w -> k_gvt w' = k_gvt w -> k_epoch w' = k_epoch w -> R w' a.
+  k_next w' = k_next w -> k_gvt w' = k_gvt w -> R w' a.
 Proof.
-  intros [F Hl Hg He M0 N5 Hre Hh Hp Ha Hn] F' P Ef El En Eg Ee.
+  intros [F Hl M0 N5 Hre Hh Hp Ha Hn] F' P Ef El En Eg.
   constructor; try assumption.
   - rewrite El. exact Hl.
-  - rewrite Eg. exact Hg.
-  - rewrite Ee. split; [apply He|]. intros l Hlt. unfold get_lp. rewrite El. apply He. exact Hlt.
   - rewrite Ef, El. intros o Ho Hf. apply (Permutation_in _ P). apply M0; assumption.
   - rewrite Ef, El. exact N5.
-  - intros l Hlt. unfold get_lp. rewrite El. apply Hh. exact Hlt.
+  - intros l Hlt. unfold get_lp. rewrite El, Eg. apply Hh. exact Hlt.
   - intros x. rewrite Hp, Ef. split; intros (y & Hy & E); exists y; (split; [|exact E]); [apply (Live_perm _ _ _ _ P)|apply (Live_perm _ _ _ _ P)]; exact Hy.
   - intros i. rewrite Ha, Ef, El. split; intros (j & Hj & E); exists j; (split; [|exact E]); [apply (Dm_perm _ _ _ _ _ P)|apply (Dm_perm _ _ _ _ _ P)]; exact Hj.
   - rewrite En. exact Hn.
@@ -590,9 +592,9 @@ Proof.
 Qed.
 
 (* identities: within the pending and processed messages an identity determines the message *)
-Lemma same_id w y z : full p w -> k_gvt w = 0%Z -> In y (pend w ++ allprocs (k_lps w) ++ allmarks (k_lps w)) ->
+Lemma same_id w y z : full p w -> In y (pend w ++ allprocs (k_lps w) ++ allmarks (k_lps w)) ->
   In z (pend w ++ allprocs (k_lps w) ++ allmarks (k_lps w)) -> wm_id y = wm_id z -> y = z.
-Proof. intros F G Hy Hz E. exact (l_body _ _ _ _ _ _ (once_loc w F G) y z Hy Hz E). Qed.
+Proof. intros F Hy Hz E. exact (l_body _ _ _ _ _ _ (once_loc w F) y z Hy Hz E). Qed.
 
 Lemma fix_bound_epoch x : x_epoch (fix_bound x) = x_epoch x.
 Proof. unfold fix_bound. destruct (x_hist x); reflexivity. Qed.
@@ -602,19 +604,28 @@ Proof. unfold base. rewrite fix_bound_logs. reflexivity. Qed.
 Lemma get_put_other w l x i : i <> l -> get_lp (put_lp w l x) i = get_lp w i.
 Proof. intros H. unfold get_lp. cbn [put_lp set_lps k_lps]. apply (nth_set_nth_other ck). exact H. Qed.
 
+Lemma doomedb_false_sub (a a' : Abs.abs cont) x : (forall i, In i (Abs.antis cont a') -> In i (Abs.antis cont a)) ->
+  Abs.doomedb cont a x = false -> Abs.doomedb cont a' x = false.
+Proof.
+  intros Hsub Hf. destruct (Abs.doomedb cont a' x) eqn:E; [|reflexivity]. apply (Abs.doomedb_true cont) in E. apply Hsub in E.
+  apply (Abs.doomedb_true cont) in E. congruence.
+Qed.
+Lemma remove_id_sub i l x : In x (Abs.remove_id i l) -> In x l.
+Proof. induction l as [|h t IH]; cbn [Abs.remove_id]; [tauto|]. destruct (Nat.eqb h i); [intros H; right; exact H|intros [H|H]; [left; exact H|right; apply IH; exact H]]. Qed.
+
 (* ---------- a message cancelled while pending is dropped: abstract step s_drop ---------- *)
 Lemma sim_drop w a w1 m : R w a -> Permutation (pend w) (m :: pend w1) ->
-  k_flags w1 = k_flags w -> k_next w1 = k_next w -> k_gvt w1 = k_gvt w -> k_lps w1 = k_lps w -> k_epoch w1 = k_epoch w ->
+  k_flags w1 = k_flags w -> k_next w1 = k_next w -> k_gvt w1 = k_gvt w -> k_lps w1 = k_lps w ->
   fl (k_flags w) m = 1%N ->
   let l := N.to_nat (e_dest (wm_ev m)) in
   let w3 := set_flags w1 (flag_set (k_flags w1) (wm_id m) 3) in
   let w' := put_lp w3 l (fix_bound (get_lp w3 l)) in
   full p w' -> exists a', astep a a' /\ R w' a'.
 Proof.
-  intros Hr Hperm Ef En Eg El Ee Hfm l w3 w' F'.
-  pose proof Hr as [F Hlen Hg [He0 Hel] M0 N5 Hre Hh Hp Ha Hn].
-  pose proof (once_loc w F Hg) as L.
-  assert (HL1 : Loc 0 (k_flags w) (m :: pend w1) (allprocs (k_lps w)) (allmarks (k_lps w)) (k_next w)) by (eapply Loc_perm; [exact L|exact Hperm|apply Permutation_refl|apply Permutation_refl]).
+  intros Hr Hperm Ef En Eg El Hfm l w3 w' F'.
+  pose proof Hr as [F Hlen M0 N5 Hre Hh Hp Ha Hn].
+  pose proof (once_loc w F) as L.
+  assert (HL1 : Loc (k_gvt w) (k_flags w) (m :: pend w1) (allprocs (k_lps w)) (allmarks (k_lps w)) (k_next w)) by (eapply Loc_perm; [exact L|exact Hperm|apply Permutation_refl|apply Permutation_refl]).
   assert (Hmin : In m (pend w)) by (apply (Permutation_in _ (Permutation_sym Hperm)); left; reflexivity).
   destruct (f_extra p w F) as [Hxp Hxl]. destruct (Hxp m Hmin) as [_ Hdl]. fold l in Hdl. rewrite Hlen in Hdl.
   destruct (nodup_cons_id m (pend w1) (l_nd_pd _ _ _ _ _ _ HL1)) as [Hnm1 _].
@@ -623,7 +634,7 @@ Proof.
   assert (Hnmk : ~ In m (allmarks (k_lps w))).
   { intro H. destruct (l_mk _ _ _ _ _ _ L m H) as [H1|[H1 _]]; rewrite Hfm in H1; discriminate. }
   assert (Hid : forall y, In y (pend w ++ allprocs (k_lps w) ++ allmarks (k_lps w)) -> wm_id y = wm_id m -> y = m).
-  { intros y Hy E. apply (same_id w y m F Hg Hy); [apply in_or_app; left; exact Hmin|exact E]. }
+  { intros y Hy E. apply (same_id w y m F Hy); [apply in_or_app; left; exact Hmin|exact E]. }
   assert (Hl1 : l < length (k_lps w1)) by (rewrite El, Hlen; exact Hdl).
   destruct (put_same_hist w3 l (fix_bound (get_lp w3 l)) Hl1 (fix_bound_hist _)) as [Epp Emm].
   change (k_lps w3) with (k_lps w1) in Epp, Emm. rewrite El in Epp, Emm.
@@ -631,7 +642,8 @@ Proof.
   assert (Hfl : forall y, wm_id y <> wm_id m -> fl f' y = fl (k_flags w) y) by (intros y Hy; unfold f'; rewrite Ef; apply fl_set_other; exact Hy).
   assert (Hin1 : forall y, In y (pend w1) -> In y (pend w) /\ wm_id y <> wm_id m).
   { intros y Hy. assert (Hyw : In y (pend w)) by (apply (Permutation_in _ (Permutation_sym Hperm)); right; exact Hy). split; [exact Hyw|].
-    intro E. apply Hnm1. rewrite <- (Hid y ltac:(apply in_or_app; left; exact Hyw) E). exact Hy. }
+    assert (Hyall : In y (pend w ++ allprocs (k_lps w) ++ allmarks (k_lps w))) by (apply in_or_app; left; exact Hyw).
+    intro E. apply Hnm1. rewrite <- (Hid y Hyall E). exact Hy. }
   pose proof (reach_Inv a Hre) as I.
   assert (Hpm : In (amsg m) (Abs.pool cont a)) by (apply Hp; exists m; split; [split; [exact Hmin|right; exact Hfm]|reflexivity]).
   assert (Hdm : Abs.doomedb cont a (amsg m) = true).
@@ -640,10 +652,6 @@ Proof.
   constructor; cbn [Abs.hist Abs.pool Abs.antis Abs.nid].
   - exact F'.
   - unfold w'. cbn [put_lp set_lps k_lps]. rewrite set_nth_length. change (k_lps w3) with (k_lps w1). rewrite El. exact Hlen.
-  - unfold w'. cbn. rewrite Eg. exact Hg.
-  - split; [change (k_epoch w') with (k_epoch w1); rewrite Ee; exact He0|]. intros i Hi. unfold w'. destruct (Nat.eq_dec i l) as [->|Hne].
-    + rewrite (get_lp_set w3 l _ Hl1), fix_bound_epoch. unfold get_lp. change (k_lps w3) with (k_lps w1). rewrite El. apply Hel. exact Hi.
-    + rewrite (get_put_other w3 l _ i Hne). unfold get_lp. change (k_lps w3) with (k_lps w1). rewrite El. apply Hel. exact Hi.
   - unfold w'. rewrite Emm. change (pend (put_lp w3 _ _)) with (pend w1). change (k_flags (put_lp w3 _ _)) with f'.
     intros o Ho Hfo. destruct (Pos.eq_dec (wm_id o) (wm_id m)) as [E|E].
     + exfalso. apply Hnmk. rewrite <- (Hid o ltac:(rewrite !in_app_iff; tauto) E). exact Ho.
@@ -652,11 +660,14 @@ Proof.
     + exfalso. apply Hnpr. rewrite <- (Hid y ltac:(rewrite !in_app_iff; tauto) E). exact Hy.
     + rewrite (Hfl y E). apply N5. exact Hy.
   - eapply Bridge.rs; [exact Hre|]. apply (Abs.s_drop cont cltb tltb lpstate n (AppAbs.s0 p) (ahandle p) a (amsg m) Hpm Hdm).
-  - intros i Hi. destruct (Hh i Hi) as (ms & im & gs & E1 & E2 & E3 & E4). exists ms, im, gs.
-    unfold w'. destruct (Nat.eq_dec i l) as [->|Hne].
-    + rewrite (get_lp_set w3 l _ Hl1), fix_bound_hist, fix_bound_base. unfold get_lp in *. change (k_lps w3) with (k_lps w1). rewrite El.
-      repeat split; assumption.
-    + rewrite (get_put_other w3 l _ i Hne). unfold get_lp in *. change (k_lps w3) with (k_lps w1). rewrite El. repeat split; assumption.
+  - intros i Hi. destruct (Hh i Hi) as (g0 & gdone & gs & E1 & E2 & E3 & E4 & E5). exists g0, gdone, gs.
+    assert (Eget : x_hist (get_lp w' i) = x_hist (get_lp w i) /\ base (get_lp w' i) = base (get_lp w i)).
+    { unfold w'. destruct (Nat.eq_dec i l) as [->|Hne].
+      - rewrite (get_lp_set w3 l _ Hl1), fix_bound_hist, fix_bound_base. unfold get_lp. change (k_lps w3) with (k_lps w1). rewrite El. split; reflexivity.
+      - rewrite (get_put_other w3 l _ i Hne). unfold get_lp. change (k_lps w3) with (k_lps w1). rewrite El. split; reflexivity. }
+    destruct Eget as [-> ->]. split; [exact E1|]. split; [exact E2|]. split; [exact E3|]. split; [|exact E5].
+    intros g Hgg. destruct (E4 g Hgg) as [H1 H2]. split; [change (k_gvt w') with (k_gvt w1); rewrite Eg; exact H1|].
+    apply (doomedb_false_sub a); [|exact H2]. cbn [Abs.antis]. intros j Hj. apply (remove_id_sub _ _ _ Hj).
   - intros x. rewrite (remove1_in_iff _ _ _ (pool_nodup a I)). rewrite Hp. change (pend w') with (pend w1). change (k_flags w') with f'. split.
     + intros [(y & [Hy Hfy] & ->) Hne]. cbn [amsg Abs.mid] in Hne. assert (Hne' : wm_id y <> wm_id m) by (intro E; apply Hne; rewrite E; reflexivity).
       exists y. split; [|reflexivity]. split; [|rewrite (Hfl y Hne'); exact Hfy].
@@ -933,8 +944,55 @@ Proof.
     rewrite firstn_length_le in Hl by exact Hk. exact Hl.
 Qed.
 
+Lemma skipn_flat_app (a b : list group) : skipn (length (flat a)) (flat (a ++ b)) = flat b.
+Proof. rewrite flat_app, skipn_app, skipn_all, Nat.sub_diag. reflexivity. Qed.
+
+Lemma app_assoc4 {A} (a b c d : list A) : a ++ (b ++ c) ++ d = ((a ++ b) ++ c) ++ d.
+Proof. rewrite !app_assoc. reflexivity. Qed.
+Lemma flat_snoc_pos2 (a b : list group) g : 0 < length (flat (a ++ b ++ [g])).
+Proof. rewrite !flat_app, !app_length. unfold flat at 3. cbn [flat_map]. unfold flat1. rewrite !app_length. cbn. lia. Qed.
+Lemma nth_flat_last (a : list group) g b : nth_error (flat ((a ++ [g]) ++ b)) (pred (length (flat (a ++ [g])))) = Some (EProc (snd g)).
+Proof.
+  rewrite (flat_app (a ++ [g]) b). rewrite nth_error_app1; [apply flat_last|]. pose proof (flat_snoc_pos2 [] a g) as H. cbn [app] in H. lia.
+Qed.
+
+Lemma flat_g0_cut g0 gs k : (g0 = [] \/ exists ms im, g0 = [(ms, im)]) -> bnd (flat (g0 ++ gs)) k -> k <= length (flat (g0 ++ gs)) ->
+  length (flat g0) <= k -> exists gk gu : list group, gs = gk ++ gu /\ k = length (flat (g0 ++ gk)).
+Proof.
+  intros [->|(ms & im & ->)] Hb Hk Hge.
+  - cbn [app] in *. destruct (flat_cut gs k Hb Hk) as (gk & gu & E & E1 & _). exists gk, gu. split; [exact E|].
+    assert (Hl : length (firstn k (flat gs)) = length (flat gk)) by (rewrite E1; reflexivity). rewrite firstn_length_le in Hl by exact Hk. exact Hl.
+  - cbn [app] in *. apply (flat_cons_cut ms im gs k Hb Hk). rewrite flat_cons in Hge. rewrite app_length, map_length in Hge. cbn in Hge. lia.
+Qed.
+
+Lemma cltb_time_false c1 c2 : (c_t c2 < c_t c1)%N -> cltb c1 c2 = false.
+Proof.
+  intros H. destruct (cltb c1 c2) eqn:E; [|reflexivity]. exfalso. apply (clt_not_tlt c1 c2 E). unfold Abs.tlt, tltb. apply N.ltb_lt. exact H.
+Qed.
+
+Lemma nodup_map_inj {A B} (f : A -> B) (l : list A) x y : NoDup (map f l) -> In x l -> In y l -> f x = f y -> x = y.
+Proof.
+  induction l as [|h t IH]; intros Hnd Hx Hy E; [destruct Hx|]. cbn [map] in Hnd. inversion Hnd as [|? ? Hh Ht]; subst.
+  destruct Hx as [<-|Hx], Hy as [<-|Hy]; [reflexivity| | |apply IH; assumption].
+  - exfalso. apply Hh. rewrite E. apply in_map. exact Hy.
+  - exfalso. apply Hh. rewrite <- E. apply in_map. exact Hx.
+Qed.
+
+(* a released (ghost) message is never among the outputs of an undone group: those lie at or above the GVT *)
+Lemma ghost_not_marked a i gy l' (hl : list (Abs.entry cont)) o : aInv a -> i < n -> l' < n -> In (ent gy) (Abs.hist cont a i) ->
+  (forall e, In e hl -> In e (Abs.hist cont a l')) -> In (amsg o) (flat_map (Abs.eouts cont) hl) ->
+  Abs.mid cont (amsg (snd gy)) = Abs.mid cont (amsg o) -> snd gy = o.
+Proof.
+  intros I Hi Hl' Hy Hsub Ho E. apply amsg_inj.
+  apply (nodup_map_inj (Abs.mid cont) (Abs.placed cont n a) _ _ (Abs.i_nd_placed cont n init0 a I)); [| |exact E].
+  - unfold Abs.placed, Abs.hist_msgs. apply in_or_app. right. apply in_flat_map. exists i. split; [apply in_seq; lia|].
+    apply in_map_iff. exists (ent gy). split; [reflexivity|exact Hy].
+  - apply (Abs.i_sent_placed cont n init0 a I). unfold Abs.sent. apply in_or_app. right. apply in_flat_map. exists l'. split; [apply in_seq; lia|].
+    apply in_flat_map in Ho. destruct Ho as (e & He & Ho). apply in_flat_map. exists e. split; [apply Hsub; exact He|exact Ho].
+Qed.
+
 Lemma sim_process w a w1 m : R w a -> Permutation (pend w) (m :: pend w1) ->
-  k_flags w1 = k_flags w -> k_next w1 = k_next w -> k_gvt w1 = k_gvt w -> k_lps w1 = k_lps w -> k_epoch w1 = k_epoch w -> k_err w1 = k_err w ->
+  k_flags w1 = k_flags w -> k_next w1 = k_next w -> k_gvt w1 = k_gvt w -> k_lps w1 = k_lps w -> k_err w1 = k_err w ->
   good w1 -> fl (k_flags w) m = 0%N ->
   let l := N.to_nat (e_dest (wm_ev m)) in
   let w3 := set_flags w1 (flag_set (k_flags w1) (wm_id m) 2) in
@@ -944,17 +1002,18 @@ Lemma sim_process w a w1 m : R w a -> Permutation (pend w) (m :: pend w1) ->
   let w' := forward p ck w4 l m in
   full p w' -> exists a', astep a a' /\ R w' a'.
 Proof.
-  intros Hr Hperm Ef En Eg El Ee Eerr G1 Hfm l w3 x strag w4 w' F'.
-  pose proof Hr as [F Hlen Hg [He0 Hel] M0 N5 Hre Hh Hp Ha Hn].
-  pose proof (once_loc w F Hg) as L.
-  assert (HL1 : Loc 0 (k_flags w) (m :: pend w1) (allprocs (k_lps w)) (allmarks (k_lps w)) (k_next w)) by (eapply Loc_perm; [exact L|exact Hperm|apply Permutation_refl|apply Permutation_refl]).
+  intros Hr Hperm Ef En Eg El Eerr G1 Hfm l w3 x strag w4 w' F'.
+  pose proof Hr as [F Hlen M0 N5 Hre Hh Hp Ha Hn].
+  pose proof (once_loc w F) as L.
+  assert (HL1 : Loc (k_gvt w) (k_flags w) (m :: pend w1) (allprocs (k_lps w)) (allmarks (k_lps w)) (k_next w)) by (eapply Loc_perm; [exact L|exact Hperm|apply Permutation_refl|apply Permutation_refl]).
   assert (Hmin : In m (pend w)) by (apply (Permutation_in _ (Permutation_sym Hperm)); left; reflexivity).
   destruct (f_extra p w F) as [Hxp Hxl]. destruct (Hxp m Hmin) as [Hty Hdl]. fold l in Hdl. rewrite Hlen in Hdl.
+  assert (Hgm : (k_gvt w <= Z.of_N (tm m))%Z) by (apply (s_pend w (f_good p w F) m Hmin)).
   destruct (nodup_cons_id m (pend w1) (l_nd_pd _ _ _ _ _ _ HL1)) as [Hnm1 _].
   assert (Hnpr : ~ In m (allprocs (k_lps w))).
   { destruct (l_pd _ _ _ _ _ _ L m Hmin) as [[H _]|[_ H]]; [rewrite Hfm in H; discriminate|exact H]. }
   assert (Hid : forall y, In y (pend w ++ allprocs (k_lps w) ++ allmarks (k_lps w)) -> wm_id y = wm_id m -> y = m).
-  { intros y Hy E. apply (same_id w y m F Hg Hy); [apply in_or_app; left; exact Hmin|exact E]. }
+  { intros y Hy E. apply (same_id w y m F Hy); [apply in_or_app; left; exact Hmin|exact E]. }
   assert (Hl3 : l < length (k_lps w3)) by (change (k_lps w3) with (k_lps w1); rewrite El, Hlen; exact Hdl).
   set (f3 := flag_set (k_flags w1) (wm_id m) 2).
   assert (Hfl : forall y, wm_id y <> wm_id m -> fl f3 y = fl (k_flags w) y) by (intros y Hy; unfold f3; rewrite Ef; apply fl_set_other; exact Hy).
@@ -962,21 +1021,26 @@ Proof.
   pose proof (Loc_extract0 _ _ _ _ _ _ _ HL1 Hfm) as HL3. rewrite <- Ef in HL3. fold f3 in HL3.
   assert (Ok3 : all_ok2 p w3) by (unfold all_ok2; change (k_lps w3) with (k_lps w1); rewrite El; exact (f_ok p w F)).
   assert (G3 : good w3) by (apply set_flags_good; exact G1).
+  assert (Eg3 : k_gvt w3 = k_gvt w) by (change (k_gvt w3) with (k_gvt w1); exact Eg).
   (* the history of LP l, grouped *)
-  destruct (Hh l Hdl) as (ms & im & gs & Ehist & Einit & Ebase & Eah).
+  destruct (Hh l Hdl) as (g0 & gdone & gs & Ehist & Ebase & Eah & Hghost & Hshape).
+  assert (Hshape' : g0 = [] \/ exists ms im, g0 = [(ms, im)]) by (destruct Hshape as [(ms & im & E & _)|E]; [right; exists ms, im; exact E|left; exact E]).
   assert (Ex : x = get_lp w l) by (unfold x, get_lp; change (k_lps w3) with (k_lps w1); rewrite El; reflexivity).
   rewrite <- Ex in Ehist, Ebase.
   destruct (get_ok2 p w3 l Ok3 Hl3) as [Hlok Hlwf]. fold x in Hlok, Hlwf.
   assert (Hpin : forall g, In g gs -> In (snd g) (allprocs (k_lps w))).
-  { intros g Hgg. unfold allprocs. apply in_flat_map. exists (get_lp w l). split; [unfold get_lp; apply nth_In; rewrite Hlen; exact Hdl|].
-    rewrite <- Ex, Ehist. rewrite procs_flat. cbn [map]. right. apply in_map. exact Hgg. }
+  { intros g Hgg. apply in_allprocs_iff. exists l. split; [rewrite Hlen; exact Hdl|]. rewrite <- Ex, Ehist. apply in_procs. rewrite procs_flat, map_app. apply in_or_app. right. apply in_map. exact Hgg. }
   assert (Hdb : forall g, In g gs -> Abs.dbefore cont cltb tltb a (amsg m) (ent g) = wbefore f3 m (snd g)).
   { intros g Hgg. apply (dbefore_wbefore w a m (snd g) f3 Hr (Hpin g Hgg) Hfl); [|exact Hf3m].
     intro E. apply Hnpr. rewrite <- (Hid (snd g) ltac:(rewrite !in_app_iff; right; left; apply Hpin; exact Hgg) E). apply Hpin. exact Hgg. }
+  assert (Hdbg : forall g, In g gdone -> Abs.dbefore cont cltb tltb a (amsg m) (ent g) = false).
+  { intros g Hgg. destruct (Hghost g Hgg) as [Ht Hd]. unfold Abs.dbefore. cbn [ent Abs.em snd]. rewrite Hd. cbn [amsg Abs.mc]. apply cltb_time_false.
+    unfold cont_of, c_t. cbn [fst]. unfold tm in *. lia. }
   (* where the history is cut *)
   assert (Hcut : exists gk gu, gs = gk ++ gu /\
             (forall g, In g gu -> wbefore f3 m (snd g) = true) /\ (gk = [] \/ exists gk' g, gk = gk' ++ [g] /\ wbefore f3 m (snd g) = false) /\
-            w4 = (if strag then do_rollback p w3 l (length (flat ((ms, im) :: gk))) else w3) /\ (strag = false -> gu = [])).
+            w4 = (if strag then do_rollback p w3 l (length (flat (g0 ++ gk))) else w3) /\ (strag = false -> gu = []) /\
+            (forall o, In o (flat_map fst gu) -> (k_gvt w3 <= Z.of_N (tm o))%Z)).
   { destruct strag eqn:Es.
     - unfold strag in Es. destruct (last_proc (x_hist x)) as [lastm|] eqn:Elast; [|discriminate]. apply andb_true_iff in Es. destruct Es as [_ Ew].
       change (k_flags w3) with f3 in Ew.
@@ -984,31 +1048,46 @@ Proof.
       destruct (straggler_index_bnd f3 m (x_hist x)) as [Hbnd Hkle].
       assert (Hbase : lp_base x) by (rewrite Ex; apply (Hxl l ltac:(rewrite Hlen; exact Hdl))).
       pose proof (straggler_ge_base p f3 m x lastm Hlok Hbase Hf3m Hty Elast Ew) as Hbk. rewrite Ebase in Hbk. cbn [fst] in Hbk.
-      set (k := straggler_index f3 m (x_hist x)) in *. rewrite Ehist in Hbnd, Hkle.
-      destruct (flat_cons_cut ms im gs k Hbnd Hkle Hbk) as (gk & gu & Egs & Ek).
-      exists gk, gu. split; [exact Egs|]. split; [|split; [|split; [unfold w4; change (k_flags w3) with f3; fold k; rewrite Ek; reflexivity|discriminate]]].
-      + intros g Hgg. apply Habove. fold k. rewrite Ehist, Egs, Ek. change ((ms, im) :: gk ++ gu) with (((ms, im) :: gk) ++ gu).
-        rewrite flat_app, skipn_app, skipn_all, Nat.sub_diag. cbn [skipn app]. apply in_procs. rewrite procs_flat. apply in_map. exact Hgg.
-      + destruct gk as [|g0 gk0] using rev_ind; [left; reflexivity|right]. exists gk0, g0. split; [reflexivity|].
-        destruct Hstop as [Hk0|(e & Hne & Hwe)]; [lia|].
-        assert (Ee' : e = snd g0).
-        { rewrite Ehist, Egs in Hne. change ((ms, im) :: (gk0 ++ [g0]) ++ gu) with ((((ms, im) :: gk0) ++ [g0]) ++ gu) in Hne.
-          rewrite flat_app, nth_error_app1 in Hne by (rewrite Ek; change ((ms, im) :: gk0 ++ [g0]) with (((ms, im) :: gk0) ++ [g0]); pose proof (flat_length_pos (ms, im) (gk0 ++ [g0])); cbn [app] in *; lia).
-          rewrite Ek in Hne. change ((ms, im) :: gk0 ++ [g0]) with (((ms, im) :: gk0) ++ [g0]) in Hne. rewrite flat_last in Hne. injection Hne as <-. reflexivity. }
+      set (k := straggler_index f3 m (x_hist x)) in *.
+      assert (Hund : forall o, In (ESent o) (skipn k (x_hist x)) -> (tm m <= tm o)%N).
+      { apply (undone_ge p H_time x k (tm m) (conj Hlok Hlwf) Hbnd); [rewrite Ebase; exact Hbk|exact Hkle|].
+        intros y Hy. apply (wbefore_le f3). apply Habove. exact Hy. }
+      rewrite Ehist in Hbnd, Hkle.
+      destruct (flat_g0_cut g0 gs k Hshape' Hbnd Hkle Hbk) as (gk & gu & Egs & Ek).
+      assert (Eskip : skipn k (x_hist x) = flat gu).
+      { rewrite Ehist, Egs, Ek, app_assoc. apply skipn_flat_app. }
+      exists gk, gu. split; [exact Egs|]. split; [|split; [|split; [unfold w4; change (k_flags w3) with f3; fold k; rewrite Ek; reflexivity|split; [discriminate|]]]].
+      + intros g Hgg. apply Habove. fold k. rewrite Eskip. apply in_procs. rewrite procs_flat. apply in_map. exact Hgg.
+      + destruct gk as [|gl gk0] using rev_ind; [left; reflexivity|right]. exists gk0, gl. split; [reflexivity|].
+        destruct Hstop as [Hk0|(e & Hne & Hwe)].
+        { exfalso. fold k in Hk0. rewrite Hk0 in Ek. pose proof (flat_snoc_pos2 g0 gk0 gl) as H. apply (Nat.lt_irrefl 0). eapply Nat.lt_le_trans; [exact H|]. apply Nat.eq_le_incl. symmetry. exact Ek. }
+        assert (Ee' : e = snd gl).
+        { fold k in Hne. assert (Ex2 : x_hist x = flat (((g0 ++ gk0) ++ [gl]) ++ gu)) by (rewrite Ehist, Egs; f_equal; apply app_assoc4).
+          assert (Ek2 : k = length (flat ((g0 ++ gk0) ++ [gl]))) by (rewrite Ek; f_equal; f_equal; apply app_assoc).
+          rewrite Ex2, Ek2, nth_flat_last in Hne. injection Hne as <-. reflexivity. }
         rewrite <- Ee'. exact Hwe.
-    - exists gs, []. rewrite app_nil_r. split; [reflexivity|]. split; [intros g []|]. split; [|split; [reflexivity|reflexivity]].
-      destruct gs as [|g0 gs0] using rev_ind; [left; reflexivity|right]. exists gs0, g0. split; [reflexivity|].
-      assert (Elast : last_proc (x_hist x) = Some (snd g0)).
-      { unfold last_proc. rewrite Ehist. change ((ms, im) :: gs0 ++ [g0]) with (((ms, im) :: gs0) ++ [g0]). rewrite flat_app, rev_app_distr.
-        unfold flat at 1. cbn [flat_map]. rewrite app_nil_r. unfold flat1. rewrite rev_app_distr. reflexivity. }
+      + intros o Ho. rewrite Eg3. specialize (Hund o ltac:(rewrite Eskip; apply in_marks; rewrite marks_flat; exact Ho)). lia.
+    - exists gs, []. rewrite app_nil_r. split; [reflexivity|]. split; [intros g []|]. split; [|split; [reflexivity|split; [reflexivity|intros o []]]].
+      destruct gs as [|gl gs0] using rev_ind; [left; reflexivity|right]. exists gs0, gl. split; [reflexivity|].
+      assert (Elast : last_proc (x_hist x) = Some (snd gl)).
+      { unfold last_proc. rewrite Ehist, app_assoc, flat_app, rev_app_distr. unfold flat at 1. cbn [flat_map]. rewrite app_nil_r. unfold flat1. rewrite rev_app_distr. reflexivity. }
       unfold strag in Es. rewrite Elast in Es. apply andb_false_iff in Es. change (k_flags w3) with f3 in Es. destruct Es as [Eb|Ew]; [|exact Ew].
       apply Z.leb_gt in Eb. destruct (get_time w3 l G3 Hl3) as [_ Hbound]. fold x in Hbound.
-      specialize (Hbound (tm (snd g0))). destruct (wbefore f3 m (snd g0)) eqn:Ew; [|reflexivity]. apply wbefore_le in Ew. exfalso.
-      assert (Hin : In (tm (snd g0)) (ptimes (x_hist x))) by (apply ptimes_in; apply in_procs; rewrite Ehist, procs_flat; cbn [map]; right; apply in_map; apply in_or_app; right; left; reflexivity).
+      specialize (Hbound (tm (snd gl))). destruct (wbefore f3 m (snd gl)) eqn:Ew; [|reflexivity]. apply wbefore_le in Ew. exfalso.
+      assert (Hin : In (tm (snd gl)) (ptimes (x_hist x))) by (apply ptimes_in; apply in_procs; rewrite Ehist, procs_flat, !map_app; apply in_or_app; right; apply in_or_app; right; left; reflexivity).
       specialize (Hbound Hin). unfold tm in *. lia. }
-  destruct Hcut as (gk & gu & Egs & Hgu & Hgk & Ew4 & Hnos).
+  destruct Hcut as (gk & gu & Egs & Hgu & Hgk & Ew4 & Hnos & Hmt).
   subst gs.
-  destruct (keep_undo_groups a f3 m gk gu Hdb Hgu Hgk) as [Ekeep Eundo].
+  assert (Ekeep : Abs.keep_of (Abs.dbefore cont cltb tltb a (amsg m)) (map ent (gdone ++ gk ++ gu)) = map ent (gdone ++ gk) /\
+                  Abs.undo_of (Abs.dbefore cont cltb tltb a (amsg m)) (map ent (gdone ++ gk ++ gu)) = map ent gu).
+  { rewrite (app_assoc gdone gk gu), (map_app ent (gdone ++ gk) gu). apply keep_of_unique.
+    - intros e He. apply in_map_iff in He. destruct He as (g & <- & Hgg). rewrite Hdb by (apply in_or_app; right; exact Hgg). apply Hgu. exact Hgg.
+    - destruct Hgk as [->|(gk' & g & -> & Hg)].
+      + rewrite app_nil_r. destruct gdone as [|gl gd0] using rev_ind; [left; reflexivity|right]. exists (map ent gd0), (ent gl). rewrite map_app. split; [reflexivity|].
+        apply Hdbg. apply in_or_app. right. left. reflexivity.
+      + right. exists (map ent (gdone ++ gk')), (ent g). rewrite app_assoc, map_app. split; [reflexivity|].
+        rewrite Hdb by (apply in_or_app; left; apply in_or_app; right; left; reflexivity). exact Hg. }
+  destruct Ekeep as [Ekeep Eundo].
   (* facts about the state before the undo *)
   assert (M03 : Mk0 f3 (pend w3) (allmarks (k_lps w3))).
   { change (k_lps w3) with (k_lps w1). change (pend w3) with (pend w1). rewrite El. intros o Ho Hfo. destruct (Pos.eq_dec (wm_id o) (wm_id m)) as [E|E].
@@ -1016,37 +1095,38 @@ Proof.
     - rewrite (Hfl o E) in Hfo. pose proof (M0 o Ho Hfo) as Hop. apply (Permutation_in _ Hperm) in Hop. destruct Hop as [<-|Hop]; [congruence|exact Hop]. }
   assert (N53 : No5 f3 (allprocs (k_lps w))).
   { intros y Hy. destruct (Pos.eq_dec (wm_id y) (wm_id m)) as [E|E]; [rewrite (Hid y ltac:(rewrite !in_app_iff; tauto) E), Hf3m; discriminate|]. rewrite (Hfl y E). apply N5. exact Hy. }
-  assert (HL3' : Loc 0 (k_flags w3) (pend w3) ([m] ++ allprocs (k_lps w3)) (allmarks (k_lps w3)) (k_next w3)).
-  { change (k_flags w3) with f3. change (pend w3) with (pend w1). change (k_lps w3) with (k_lps w1). change (k_next w3) with (k_next w1). rewrite El, En. exact HL3. }
-  assert (H4 : x_hist (get_lp w4 l) = flat ((ms, im) :: gk) /\ (forall i, i <> l -> get_lp w4 i = get_lp w3 i) /\ base (get_lp w4 l) = base x /\
+  assert (HL3' : Loc (k_gvt w3) (k_flags w3) (pend w3) ([m] ++ allprocs (k_lps w3)) (allmarks (k_lps w3)) (k_next w3)).
+  { change (k_flags w3) with f3. change (pend w3) with (pend w1). change (k_lps w3) with (k_lps w1). change (k_next w3) with (k_next w1). rewrite Eg3, El, En. exact HL3. }
+  assert (H4 : x_hist (get_lp w4 l) = flat (g0 ++ gk) /\ (forall i, i <> l -> get_lp w4 i = get_lp w3 i) /\ base (get_lp w4 l) = base x /\
                x_epoch (get_lp w4 l) = x_epoch x /\ length (k_lps w4) = length (k_lps w3) /\ k_next w4 = k_next w3 /\ k_gvt w4 = k_gvt w3 /\ k_epoch w4 = k_epoch w3 /\
-               Loc 0 (k_flags w4) (pend w4) ([m] ++ allprocs (k_lps w4)) (allmarks (k_lps w4)) (k_next w4) /\
+               Loc (k_gvt w3) (k_flags w4) (pend w4) ([m] ++ allprocs (k_lps w4)) (allmarks (k_lps w4)) (k_next w4) /\
                (forall y, Live (k_flags w4) (pend w4) y <-> Live f3 (pend w3) y \/ In y (map snd gu)) /\
                (forall i, Dm (k_flags w4) (pend w4) ([m] ++ allprocs (k_lps w4)) i <-> Dm f3 (pend w3) ([m] ++ allprocs (k_lps w3)) i \/ In i (map wm_id (flat_map fst gu))) /\
                Mk0 (k_flags w4) (pend w4) (allmarks (k_lps w4)) /\ (forall L0, No5 f3 L0 -> No5 (k_flags w4) L0) /\ all_ok2 p w4).
   { rewrite Ew4. destruct strag.
-    - change ((ms, im) :: gk ++ gu) with (((ms, im) :: gk) ++ gu) in Ehist.
-      assert (Eg3 : k_gvt w3 = 0%Z) by (change (k_gvt w3) with (k_gvt w1); rewrite Eg; exact Hg).
-      destruct (rollback_sets w3 l [m] ((ms, im) :: gk) gu Ok3 Hl3 Ehist) as (Q1 & Q2 & Q3 & Q4 & Q5 & Q6 & Q7 & Q8 & Q9 & Q10 & Q11 & Q12 & Q13).
-      + fold x. rewrite Ebase. cbn [fst]. rewrite flat_cons, app_length, map_length. cbn. lia.
-      + rewrite Eg3. exact HL3'.
+    - rewrite (app_assoc g0 gk gu) in Ehist.
+      destruct (rollback_sets w3 l [m] (g0 ++ gk) gu Ok3 Hl3 Ehist) as (Q1 & Q2 & Q3 & Q4 & Q5 & Q6 & Q7 & Q8 & Q9 & Q10 & Q11 & Q12 & Q13).
+      + fold x. rewrite Ebase. cbn [fst]. rewrite flat_app, app_length. lia.
+      + exact HL3'.
       + exact M03.
       + intros y Hy. apply N53. apply in_map_iff in Hy. destruct Hy as (g & <- & Hgg). apply Hpin. apply in_or_app. right. exact Hgg.
-      + intros o _. rewrite Eg3. lia.
-      + cbn zeta in *. rewrite Eg3 in Q9. repeat (split; [assumption|]). apply do_rollback_ok2; [exact Ok3|]. intros _. fold x. rewrite Ehist. apply bnd_flat_prefix.
+      + exact Hmt.
+      + cbn zeta in *. repeat (split; [assumption|]). apply do_rollback_ok2; [exact Ok3|]. intros _. fold x. rewrite Ehist. apply bnd_flat_prefix.
     - rewrite (Hnos eq_refl) in *. rewrite app_nil_r in Ehist. split; [exact Ehist|]. split; [reflexivity|]. do 6 (split; [reflexivity|]).
       split; [exact HL3'|]. split; [intros y; cbn [map In]; tauto|]. split; [intros i; cbn [flat_map map In]; tauto|]. split; [exact M03|]. split; [intros L0 H; exact H|exact Ok3]. }
   destruct H4 as (Q1 & Q2 & Q3 & Q4 & Q5 & Q6 & Q7 & Q8 & Q9 & Q10 & Q11 & Q12 & Q13 & Ok4).
+  rewrite Eg3 in Q9.
   assert (Hl4 : l < length (k_lps w4)) by (rewrite Q5; exact Hl3).
   destruct (get_ok2 p w4 l Ok4 Hl4) as [Hlok4 _].
   (* the state the handler runs on is the replay of the kept history: the abstract machine's state *)
   assert (Hdest : forall g, In g (gk ++ gu) -> e_dest (wm_ev (snd g)) = N.of_nat l).
   { intros g Hgg. destruct (Hxl l ltac:(rewrite Hlen; exact Hdl)) as (_ & _ & Hd & _). rewrite <- (Hd (snd g)); [rewrite N2Nat.id; reflexivity|].
-    rewrite <- Ex, Ehist. apply in_procs. rewrite procs_flat. cbn [map]. right. apply in_map. exact Hgg. }
+    rewrite <- Ex, Ehist. apply in_procs. rewrite procs_flat, map_app. apply in_or_app. right. apply in_map. exact Hgg. }
   assert (Hdm : e_dest (wm_ev m) = N.of_nat l) by (unfold l; rewrite N2Nat.id; reflexivity).
-  assert (Est : x_st (get_lp w4 l) = Abs.stof cont lpstate (AppAbs.s0 p) (ahandle p) l (map ent gk)).
+  assert (Est : x_st (get_lp w4 l) = Abs.stof cont lpstate (AppAbs.s0 p) (ahandle p) l (map ent (gdone ++ gk))).
   { destruct Hlok4 as (newer & r0 & s0' & El4 & _ & _ & Hst). pose proof (base_eq (get_lp w4 l) newer r0 s0' El4) as Eb4. rewrite Q3, Ebase in Eb4.
-    injection Eb4 as <- <-. rewrite Hst, Q1, skipn_flat_init, replay_flat. unfold Abs.stof. symmetry. apply stof_flat; [exact Hdl|].
+    injection Eb4 as <- <-. rewrite Hst, Q1, flat_app, skipn_app, skipn_all, Nat.sub_diag. cbn [skipn app]. rewrite replay_flat.
+    unfold stofg, Abs.stof. rewrite map_app, fold_left_app. symmetry. apply stof_flat; [exact Hdl|].
     intros g Hgg. apply Hdest. apply in_or_app. left. exact Hgg. }
   destruct (forward_exact w4 l m Hl4 Hlok4) as (W1 & W2 & W3 & W4 & W5 & W6 & W7 & W8 & W9 & W10 & W11). cbn zeta in *. fold w' in W1, W2, W3, W4, W5, W6, W7, W8, W9, W10, W11.
   set (outs := snd (handle p (wm_ev m) (x_st (get_lp w4 l)))) in *. set (news := mknews (k_next w4) outs) in *.
@@ -1061,7 +1141,7 @@ Proof.
     destruct H as [[_ H]|[_ [H|H]]]; rewrite Efl in H; discriminate. }
   pose proof (Abs.s_process cont cltb tltb lpstate n (AppAbs.s0 p) (ahandle p) a l (amsg m) Hdl Hpm eq_refl Hnd) as Hstep. cbn zeta in Hstep.
   rewrite Eah in Hstep.
-  set (K := Abs.keep_of _ _) in Hstep. assert (EK : K = map ent gk) by (unfold K; exact Ekeep). clearbody K. subst K.
+  set (K := Abs.keep_of _ _) in Hstep. assert (EK : K = map ent (gdone ++ gk)) by (unfold K; exact Ekeep). clearbody K. subst K.
   set (U := Abs.undo_of _ _) in Hstep. assert (EU : U = map ent gu) by (unfold U; exact Eundo). clearbody U. subst U.
   cbn [amsg Abs.mc] in Hstep.
   rewrite <- Est in Hstep. rewrite (ahandle_eq p l _ (wm_ev m) Hdl Hdm) in Hstep. cbn [snd] in Hstep. fold outs in Hstep.
@@ -1073,8 +1153,8 @@ Proof.
     exact (Pos.lt_irrefl _ (Pos.lt_le_trans _ _ _ Hlt Hz)). }
   assert (Hfl' : forall y, In y (pend w4 ++ ([m] ++ allprocs (k_lps w4)) ++ allmarks (k_lps w4)) -> fl (k_flags w') y = fl (k_flags w4) y).
   { intros y Hy. apply W11. intros z Hz. apply (Hnews_id z y Hz Hy). }
-  assert (Hhist' : x_hist (get_lp w' l) = flat ((ms, im) :: gk ++ [(news, m)])).
-  { rewrite W1, Q1. change ((ms, im) :: gk ++ [(news, m)]) with (((ms, im) :: gk) ++ [(news, m)]). rewrite flat_app. unfold flat at 3. cbn [flat_map]. rewrite app_nil_r. reflexivity. }
+  assert (Hhist' : x_hist (get_lp w' l) = flat (g0 ++ gk ++ [(news, m)])).
+  { rewrite W1, Q1. rewrite (app_assoc g0 gk), (flat_app (g0 ++ gk)). unfold flat at 3. cbn [flat_map]. rewrite app_nil_r. reflexivity. }
   assert (Hlen' : length (k_lps w') = length (k_lps w)) by (rewrite W5, Q5; change (k_lps w3) with (k_lps w1); rewrite El; reflexivity).
   assert (Hget : forall i, i <> l -> get_lp w' i = get_lp w i).
   { intros i Hi. rewrite (W2 i Hi), (Q2 i Hi). unfold get_lp. change (k_lps w3) with (k_lps w1). rewrite El. reflexivity. }
@@ -1128,13 +1208,20 @@ Proof.
       + left. split; [apply Hpend'; right; exact Hy|rewrite (Hfl' y ltac:(apply in_or_app; left; exact Hy)); exact Hfy].
       + right. split; [apply Hprocs'; cbn [app In] in Hy; destruct Hy as [<-|Hy]; [left; reflexivity|right; exact Hy]|].
         rewrite (Hfl' y ltac:(apply in_or_app; right; apply in_or_app; left; exact Hy)). exact Hfy. }
+  assert (Egvt' : k_gvt w' = k_gvt w) by (rewrite W7, Q7; exact Eg3).
+  (* a released message is not among the newly cancelled identities *)
+  assert (Hghost_ok : forall i gi, i < n -> In (ent gi) (Abs.hist cont a i) -> (Z.of_N (tm (snd gi)) < k_gvt w)%Z -> Abs.doomedb cont a (amsg (snd gi)) = false ->
+            ~ In (Abs.mid cont (amsg (snd gi))) (Abs.ids_of cont (map ent gu))).
+  { intros i gi Hi Hin Ht _ Hids. unfold Abs.ids_of in Hids. apply in_map_iff in Hids. destruct Hids as (xo & Exo & Hxo).
+    assert (Hxo' := Hxo). apply in_flat_map in Hxo'. destruct Hxo' as (e & He & Hxe). apply in_map_iff in He. destruct He as (gg & <- & Hgg).
+    cbn [ent Abs.eouts] in Hxe. apply in_map_iff in Hxe. destruct Hxe as (o & <- & Ho).
+    assert (Eo : snd gi = o).
+    { apply (ghost_not_marked a i gi l (map ent gu) o I Hi Hdl Hin); [|exact Hxo|symmetry; exact Exo].
+      intros e He. rewrite Eah, !map_app. apply in_or_app. right. apply in_or_app. right. exact He. }
+    specialize (Hmt o ltac:(apply in_flat_map; exists gg; split; assumption)). rewrite Eg3 in Hmt. rewrite Eo in Ht. lia. }
   constructor; cbn [Abs.hist Abs.pool Abs.antis Abs.nid].
   - exact F'.
   - rewrite Hlen'. exact Hlen.
-  - rewrite W7, Q7. change (k_gvt w3) with (k_gvt w1). rewrite Eg. exact Hg.
-  - split; [rewrite W8, Q8; change (k_epoch w3) with (k_epoch w1); rewrite Ee; exact He0|]. intros i Hi. destruct (Nat.eq_dec i l) as [->|Hne].
-    + rewrite W4, Q4, Ex. apply Hel. exact Hi.
-    + rewrite (Hget i Hne). apply Hel. exact Hi.
   - (* flag-0 markers are pending *)
     intros o Ho Hfo. apply Hmarks' in Ho. destruct Ho as [Ho|Ho]; [apply Hpend'; left; exact Ho|].
     rewrite (Hfl' o ltac:(rewrite !in_app_iff; tauto)) in Hfo. apply Hpend'. right. apply Q12; assumption.
@@ -1144,14 +1231,22 @@ Proof.
     + intros z [<-|Hz]; [rewrite Hf3m; discriminate|apply N53; exact Hz].
     + cbn [app In] in *. destruct Hy as [->|Hy]; [left; reflexivity|right]. apply in_allprocs_iff in Hy. destruct Hy as (i & Hi & H). apply in_allprocs_iff.
       rewrite Q5 in Hi. change (k_lps w3) with (k_lps w1) in Hi. rewrite El in Hi. exists i. split; [exact Hi|].
-      destruct (Nat.eq_dec i l) as [->|Hne]; [rewrite Q1 in H; rewrite <- Ex, Ehist; change ((ms, im) :: gk ++ gu) with (((ms, im) :: gk) ++ gu); rewrite flat_app; apply in_or_app; left; exact H|].
+      destruct (Nat.eq_dec i l) as [->|Hne]; [rewrite Q1 in H; rewrite <- Ex, Ehist, (app_assoc g0 gk gu), flat_app; apply in_or_app; left; exact H|].
       rewrite (Q2 i Hne) in H. unfold get_lp in *. change (k_lps w3) with (k_lps w1) in H. rewrite El in H. exact H.
   - eapply Bridge.rs; [exact Hre|exact Hstep].
   - intros i Hi. destruct (Nat.eq_dec i l) as [->|Hne].
-    + exists ms, im, (gk ++ [(news, m)]). split; [exact Hhist'|]. split; [exact Einit|]. split; [rewrite W3, Q3; exact Ebase|].
-      unfold Abs.upd. rewrite Nat.eqb_refl. rewrite map_app. reflexivity.
-    + destruct (Hh i Hi) as (ms' & im' & gs' & E1 & E2 & E3 & E4). exists ms', im', gs'. rewrite (Hget i Hne). split; [exact E1|]. split; [exact E2|]. split; [exact E3|].
-      unfold Abs.upd. destruct (Nat.eqb_spec i l); [contradiction|exact E4].
+    + exists g0, gdone, (gk ++ [(news, m)]). split; [exact Hhist'|]. split; [rewrite W3, Q3; exact Ebase|]. split; [|split; [|exact Hshape]].
+      * unfold Abs.upd. rewrite Nat.eqb_refl. rewrite (app_assoc gdone gk), (map_app ent (gdone ++ gk)). reflexivity.
+      * intros g Hgg. destruct (Hghost g Hgg) as [H1 H2]. split; [rewrite Egvt'; exact H1|].
+        apply (Abs.doomedb_false cont). cbn [Abs.antis]. intro Ed.
+        apply in_app_or in Ed. destruct Ed as [Ed|Ed]; [apply (Abs.doomedb_false cont) in H2; exact (H2 Ed)|].
+        apply (Hghost_ok l g Hdl); [rewrite Eah, map_app; apply in_or_app; left; apply in_map; exact Hgg|exact H1|exact H2|exact Ed].
+    + destruct (Hh i Hi) as (g0' & gdone' & gs' & E1 & E2 & E3 & E4 & E5). exists g0', gdone', gs'. rewrite (Hget i Hne). split; [exact E1|]. split; [exact E2|]. split; [|split; [|exact E5]].
+      * unfold Abs.upd. destruct (Nat.eqb_spec i l); [contradiction|exact E3].
+      * intros g Hgg. destruct (E4 g Hgg) as [H1 H2]. split; [rewrite Egvt'; exact H1|].
+        apply (Abs.doomedb_false cont). cbn [Abs.antis]. intro Ed.
+        apply in_app_or in Ed. destruct Ed as [Ed|Ed]; [apply (Abs.doomedb_false cont) in H2; exact (H2 Ed)|].
+        apply (Hghost_ok i g Hi); [rewrite E3, map_app; apply in_or_app; left; apply in_map; exact Hgg|exact H1|exact H2|exact Ed].
   - (* the pool *)
     intros x0. rewrite !in_app_iff, (remove1_in_iff _ _ _ (pool_nodup a I)), Hp. cbn [amsg Abs.mid]. split.
     + intros [[(y & Hy & ->) Hne]|[H|H]].
@@ -1178,8 +1273,13 @@ Proof.
 Qed.
 
 (* ---------- the cancellation notice of a processed message: abstract step s_cancel ---------- *)
+Lemma nodup_mid {A B} (f : A -> B) (a : list A) x b y : NoDup (map f (a ++ x :: b)) -> In y (a ++ b) -> f y <> f x.
+Proof.
+  intros Hnd Hy E. rewrite map_app in Hnd. cbn [map] in Hnd. apply NoDup_remove_2 in Hnd. apply Hnd. rewrite <- E, <- map_app. apply in_map. exact Hy.
+Qed.
+
 Lemma sim_cancel w a w1 m : R w a -> Permutation (pend w) (m :: pend w1) ->
-  k_flags w1 = k_flags w -> k_next w1 = k_next w -> k_gvt w1 = k_gvt w -> k_lps w1 = k_lps w -> k_epoch w1 = k_epoch w ->
+  k_flags w1 = k_flags w -> k_next w1 = k_next w -> k_gvt w1 = k_gvt w -> k_lps w1 = k_lps w ->
   fl (k_flags w) m = 3%N ->
   let l := N.to_nat (e_dest (wm_ev m)) in
   let w3 := set_flags w1 (flag_set (k_flags w1) (wm_id m) 5) in
@@ -1188,38 +1288,53 @@ Lemma sim_cancel w a w1 m : R w a -> Permutation (pend w) (m :: pend w1) ->
   let w' := put_lp w4 l (fix_bound (get_lp w4 l)) in
   full p w' -> exists a', astep a a' /\ R w' a'.
 Proof.
-  intros Hr Hperm Ef En Eg El Ee Hfm l w3 past Ea w4 w' F'.
-  pose proof Hr as [F Hlen Hg [He0 Hel] M0 N5 Hre Hh Hp Ha Hn].
-  pose proof (once_loc w F Hg) as L.
-  assert (HL1 : Loc 0 (k_flags w) (m :: pend w1) (allprocs (k_lps w)) (allmarks (k_lps w)) (k_next w)) by (eapply Loc_perm; [exact L|exact Hperm|apply Permutation_refl|apply Permutation_refl]).
+  intros Hr Hperm Ef En Eg El Hfm l w3 past Ea w4 w' F'.
+  pose proof Hr as [F Hlen M0 N5 Hre Hh Hp Ha Hn].
+  pose proof (once_loc w F) as L.
+  assert (HL1 : Loc (k_gvt w) (k_flags w) (m :: pend w1) (allprocs (k_lps w)) (allmarks (k_lps w)) (k_next w)) by (eapply Loc_perm; [exact L|exact Hperm|apply Permutation_refl|apply Permutation_refl]).
   assert (Hmin : In m (pend w)) by (apply (Permutation_in _ (Permutation_sym Hperm)); left; reflexivity).
   destruct (f_extra p w F) as [Hxp Hxl]. destruct (Hxp m Hmin) as [Hty Hdl]. fold l in Hdl. rewrite Hlen in Hdl.
+  assert (Hgm : (k_gvt w <= Z.of_N (tm m))%Z) by (apply (s_pend w (f_good p w F) m Hmin)).
   destruct (nodup_cons_id m (pend w1) (l_nd_pd _ _ _ _ _ _ HL1)) as [Hnm1 _].
   destruct (Loc_extract3 _ _ _ _ _ _ _ HL1 Hfm) as [Hmpr HL3]. rewrite <- Ef in HL3.
   assert (Hnmk : ~ In m (allmarks (k_lps w))).
   { intro H. destruct (l_mk _ _ _ _ _ _ L m H) as [H1|[H1 _]]; rewrite Hfm in H1; discriminate. }
   assert (Hid : forall y, In y (pend w ++ allprocs (k_lps w) ++ allmarks (k_lps w)) -> wm_id y = wm_id m -> y = m).
-  { intros y Hy E. apply (same_id w y m F Hg Hy); [apply in_or_app; left; exact Hmin|exact E]. }
+  { intros y Hy E. apply (same_id w y m F Hy); [apply in_or_app; left; exact Hmin|exact E]. }
   assert (Hl3 : l < length (k_lps w3)) by (change (k_lps w3) with (k_lps w1); rewrite El, Hlen; exact Hdl).
   set (f3 := flag_set (k_flags w1) (wm_id m) 5) in *.
   assert (Hfl : forall y, wm_id y <> wm_id m -> fl f3 y = fl (k_flags w) y) by (intros y Hy; unfold f3; rewrite Ef; apply fl_set_other; exact Hy).
   assert (Hf3m : fl f3 m = 5%N) by (unfold f3; apply fl_set_same).
   assert (Ok3 : all_ok2 p w3) by (unfold all_ok2; change (k_lps w3) with (k_lps w1); rewrite El; exact (f_ok p w F)).
-  destruct (Hh l Hdl) as (ms & im & gs & Ehist & Einit & Ebase & Eah).
+  assert (Eg3 : k_gvt w3 = k_gvt w) by (change (k_gvt w3) with (k_gvt w1); exact Eg).
+  destruct (Hh l Hdl) as (g0 & gdone & gs & Ehist & Ebase & Eah & Hghost & Hshape).
+  assert (Hshape' : g0 = [] \/ exists ms im, g0 = [(ms, im)]) by (destruct Hshape as [(ms & im & E & _)|E]; [right; exists ms, im; exact E|left; exact E]).
   set (x := get_lp w3 l) in *.
   assert (Ex : x = get_lp w l) by (unfold x, get_lp; change (k_lps w3) with (k_lps w1); rewrite El; reflexivity).
   rewrite <- Ex in Ehist, Ebase.
   destruct (get_ok2 p w3 l Ok3 Hl3) as [Hlok Hlwf]. fold x in Hlok, Hlwf.
   assert (Hbase : lp_base x) by (rewrite Ex; apply (Hxl l ltac:(rewrite Hlen; exact Hdl))).
+  assert (Htime : lp_time x) by (rewrite Ex; apply (get_time w l (f_good p w F)); rewrite Hlen; exact Hdl).
   (* where the cancelled message sits *)
   pose proof (anti_ge_base p ck m x past Hlok Hbase Hty Ea) as Hbp. rewrite Ebase in Hbp. cbn [fst] in Hbp.
   destruct (anti_index_bnd m _ _ Ea) as [Hbnd Hple]. destruct (anti_index_spec ck m _ _ Ea) as (j & Hkj & Hnj & Hsent).
-  rewrite Ehist in Hbnd, Hple. destruct (flat_cons_cut ms im gs past Hbnd Hple Hbp) as (gk & gu & Egs & Ek).
+  (* the markers of the undone groups are at or above the GVT *)
+  assert (Hund : forall o, In (ESent o) (skipn past (x_hist x)) -> (tm m <= tm o)%N).
+  { apply (undone_ge p H_time x past (tm m) (conj Hlok Hlwf) Hbnd); [rewrite Ebase; exact Hbp|exact Hple|].
+    intros y Hy. destruct (In_nth_error _ _ Hy) as (q & Hq). rewrite nth_error_skipn_add in Hq.
+    destruct (Nat.lt_trichotomy (past + q) j) as [Hlt|[Heq|Hgt]].
+    - destruct (Hsent (past + q) ltac:(lia)) as (z & Hz). congruence.
+    - rewrite Heq, Hnj in Hq. injection Hq as <-. apply N.le_refl.
+    - apply (ptimes_above (x_hist x) j m (proj1 Htime) Hnj). apply ptimes_in.
+      replace (past + q) with (S j + (past + q - S j)) in Hq by lia. rewrite <- nth_error_skipn_add in Hq. apply nth_error_In in Hq. exact Hq. }
+  rewrite Ehist in Hbnd, Hple. destruct (flat_g0_cut g0 gs past Hshape' Hbnd Hple Hbp) as (gk & gu & Egs & Ek).
+  assert (Ex2 : x_hist x = flat (g0 ++ gk) ++ flat gu) by (rewrite Ehist, Egs, <- flat_app; f_equal; apply app_assoc).
   assert (Hgu : exists mm g2, gu = (mm, m) :: g2).
-  { rewrite Ehist, Egs in Hnj, Hsent. change ((ms, im) :: gk ++ gu) with (((ms, im) :: gk) ++ gu) in Hnj, Hsent. rewrite flat_app in Hnj, Hsent.
-    destruct gu as [|[mm m'] g2].
-    - exfalso. change (flat []) with (@nil Worker.entry) in Hnj. rewrite app_nil_r in Hnj. assert (j < past) by (rewrite Ek; apply nth_error_Some; rewrite Hnj; discriminate). lia.
-    - exists mm, g2. f_equal. f_equal. rewrite (flat_cons mm m' g2) in Hnj, Hsent.
+  { destruct gu as [|[mm m'] g2].
+    - exfalso. rewrite Ex2 in Hnj. change (flat []) with (@nil Worker.entry) in Hnj. rewrite app_nil_r in Hnj. assert (j < past) by (rewrite Ek; apply nth_error_Some; intro Hc; pose proof (eq_trans (eq_sym Hc) Hnj) as Hbad; discriminate Hbad). lia.
+    - exists mm, g2. f_equal. f_equal.
+      assert (Ex3 : x_hist x = flat (g0 ++ gk) ++ (map ESent mm ++ EProc m' :: flat g2)) by (rewrite Ex2; f_equal; apply flat_cons).
+      rewrite Ex3 in Hnj, Hsent.
       rewrite nth_error_app2 in Hnj by lia. rewrite <- Ek in Hnj.
       destruct (Nat.lt_trichotomy (j - past) (length mm)) as [Hlt|[Heq|Hgt]].
       + exfalso. rewrite nth_error_app1 in Hnj by (rewrite map_length; exact Hlt). apply nth_error_In in Hnj. apply in_map_iff in Hnj. destruct Hnj as (z & Hz & _). discriminate.
@@ -1228,38 +1343,38 @@ Proof.
         replace (past + length mm - past) with (length mm) in Hz by lia. rewrite nth_error_app2 in Hz by (rewrite map_length; lia).
         rewrite map_length, Nat.sub_diag in Hz. cbn in Hz. discriminate. }
   destruct Hgu as (mm & g2 & ->). subst gs.
-  assert (Hpin : forall g, In g (gk ++ (mm, m) :: g2) -> In (snd g) (allprocs (k_lps w))).
-  { intros g Hgg. apply in_allprocs_iff. exists l. split; [rewrite Hlen; exact Hdl|]. rewrite <- Ex, Ehist. apply in_procs. rewrite procs_flat. cbn [map]. right. apply in_map. exact Hgg. }
-  assert (HnotIn : forall g, In g (gk ++ g2) -> wm_id (snd g) <> wm_id m).
+  assert (Ehist2 : x_hist x = flat ((g0 ++ gk) ++ (mm, m) :: g2)) by (rewrite Ex2, <- flat_app; reflexivity).
+  assert (Hskip : skipn past (x_hist x) = flat ((mm, m) :: g2)) by (rewrite Ehist2, Ek; apply skipn_flat_app).
+  assert (Hmt : forall o, In o (mm ++ flat_map fst g2) -> (k_gvt w3 <= Z.of_N (tm o))%Z).
+  { intros o Ho. rewrite Eg3. specialize (Hund o ltac:(rewrite Hskip; apply in_marks; rewrite marks_flat; exact Ho)). lia. }
+  assert (Hpin : forall g, In g ((g0 ++ gk) ++ (mm, m) :: g2) -> In (snd g) (allprocs (k_lps w))).
+  { intros g Hgg. apply in_allprocs_iff. exists l. split; [rewrite Hlen; exact Hdl|]. rewrite <- Ex, Ehist2. apply in_procs. rewrite procs_flat. apply in_map. exact Hgg. }
+  assert (HnotIn : forall g, In g ((g0 ++ gk) ++ g2) -> wm_id (snd g) <> wm_id m).
   { pose proof (l_nd_pr _ _ _ _ _ _ L) as Hnd. unfold allprocs in Hnd.
     apply (Permutation_NoDup (Permutation_map wm_id (split_lp (fun y => procs_of (x_hist y)) (k_lps w) l ltac:(rewrite Hlen; exact Hdl)))) in Hnd.
-    fold (get_lp w l) in Hnd. rewrite <- Ex, Ehist, map_app, procs_flat in Hnd. apply Abs.nodup_app_l in Hnd. cbn [map] in Hnd. inversion Hnd as [|? ? _ Hnd']; subst.
-    rewrite !map_app in Hnd'. cbn [map snd] in Hnd'. intros g Hgg E. apply in_app_or in Hgg. destruct Hgg as [Hgg|Hgg].
-    - apply (Abs.nodup_app_disj _ _ (wm_id m) Hnd'); [rewrite <- E; apply in_map; apply in_map; exact Hgg|left; reflexivity].
-    - apply Abs.nodup_app_r in Hnd'. inversion Hnd' as [|? ? Hn' _]; subst. apply Hn'. rewrite <- E. apply in_map. apply in_map. exact Hgg. }
+    fold (get_lp w l) in Hnd. rewrite <- Ex, Ehist2, map_app, procs_flat in Hnd. apply Abs.nodup_app_l in Hnd. rewrite map_map in Hnd.
+    intros g Hgg. apply (nodup_mid (fun g => wm_id (snd g)) (g0 ++ gk) (mm, m) g2 g Hnd Hgg). }
   (* the state before the undo *)
   assert (M03 : Mk0 f3 (pend w3) (allmarks (k_lps w3))).
   { change (k_lps w3) with (k_lps w1). change (pend w3) with (pend w1). rewrite El. intros o Ho Hfo. destruct (Pos.eq_dec (wm_id o) (wm_id m)) as [E|E].
     - exfalso. apply Hnmk. rewrite <- (Hid o ltac:(rewrite !in_app_iff; tauto) E). exact Ho.
     - rewrite (Hfl o E) in Hfo. pose proof (M0 o Ho Hfo) as Hop. apply (Permutation_in _ Hperm) in Hop. destruct Hop as [<-|Hop]; [congruence|exact Hop]. }
   assert (N53 : forall y, In y (allprocs (k_lps w)) -> wm_id y <> wm_id m -> fl f3 y <> 5%N) by (intros y Hy Hne; rewrite (Hfl y Hne); apply N5; exact Hy).
-  assert (HL3' : Loc 0 (k_flags w3) (pend w3) (allprocs (k_lps w3)) (allmarks (k_lps w3)) (k_next w3)).
-  { change (k_flags w3) with f3. change (pend w3) with (pend w1). change (k_lps w3) with (k_lps w1). change (k_next w3) with (k_next w1). rewrite El, En. exact HL3. }
-  change ((ms, im) :: gk ++ (mm, m) :: g2) with (((ms, im) :: gk) ++ (mm, m) :: g2) in Ehist.
-  assert (Eg3 : k_gvt w3 = 0%Z) by (change (k_gvt w3) with (k_gvt w1); rewrite Eg; exact Hg).
-  destruct (cancel_sets w3 l ((ms, im) :: gk) mm m g2 Ok3 Hl3 Ehist) as (Q1 & Q2 & Q3 & Q4 & Q5 & Q6 & Q7 & Q8 & Q10 & Q11 & Q12 & Q13).
-  { fold x. rewrite Ebase. cbn [fst]. rewrite flat_cons, app_length, map_length. cbn. lia. }
-  { rewrite Eg3. exact HL3'. } { exact M03. } { exact Hf3m. }
+  assert (HL3' : Loc (k_gvt w3) (k_flags w3) (pend w3) (allprocs (k_lps w3)) (allmarks (k_lps w3)) (k_next w3)).
+  { change (k_flags w3) with f3. change (pend w3) with (pend w1). change (k_lps w3) with (k_lps w1). change (k_next w3) with (k_next w1). rewrite Eg3, El, En. exact HL3. }
+  destruct (cancel_sets w3 l (g0 ++ gk) mm m g2 Ok3 Hl3 Ehist2) as (Q1 & Q2 & Q3 & Q4 & Q5 & Q6 & Q7 & Q8 & Q10 & Q11 & Q12 & Q13).
+  { fold x. rewrite Ebase. cbn [fst]. rewrite flat_app, app_length. lia. }
+  { exact HL3'. } { exact M03. } { exact Hf3m. }
   { intros y Hy. apply in_map_iff in Hy. destruct Hy as (g & <- & Hgg). apply N53; [apply Hpin; apply in_or_app; right; right; exact Hgg|apply HnotIn; apply in_or_app; right; exact Hgg]. }
-  { intros o _. rewrite Eg3. lia. }
+  { exact Hmt. }
   cbn zeta in *. rewrite <- Ek in Q1, Q2, Q3, Q4, Q5, Q6, Q7, Q8, Q10, Q11, Q12, Q13. fold w4 in Q1, Q2, Q3, Q4, Q5, Q6, Q7, Q8, Q10, Q11, Q12, Q13.
   assert (Hl4 : l < length (k_lps w4)) by (rewrite Q5; exact Hl3).
   destruct (put_same_hist w4 l (fix_bound (get_lp w4 l)) Hl4 (fix_bound_hist _)) as [Epp Emm].
   (* the abstract step *)
   pose proof (reach_Inv a Hre) as I.
-  assert (Eah' : Abs.hist cont a l = map ent gk ++ ent (mm, m) :: map ent g2) by (rewrite Eah, map_app; reflexivity).
+  assert (Eah' : Abs.hist cont a l = map ent (gdone ++ gk) ++ ent (mm, m) :: map ent g2) by (rewrite Eah, app_assoc, map_app; reflexivity).
   assert (Hdm : Abs.doomedb cont a (Abs.em cont (ent (mm, m))) = true) by (cbn [ent Abs.em snd]; apply (doomed_iff w a m Hr Hmpr); exact Hfm).
-  pose proof (Abs.s_cancel cont cltb tltb lpstate n (AppAbs.s0 p) (ahandle p) a l (map ent gk) (ent (mm, m)) (map ent g2) Hdl Eah' Hdm) as Hstep.
+  pose proof (Abs.s_cancel cont cltb tltb lpstate n (AppAbs.s0 p) (ahandle p) a l (map ent (gdone ++ gk)) (ent (mm, m)) (map ent g2) Hdl Eah' Hdm) as Hstep.
   eexists. split; [exact Hstep|].
   assert (Hget : forall i, i <> l -> get_lp w' i = get_lp w i).
   { intros i Hi. unfold w'. rewrite (get_put_other w4 l _ i Hi), (Q2 i Hi). unfold get_lp. change (k_lps w3) with (k_lps w1). rewrite El. reflexivity. }
@@ -1281,35 +1396,51 @@ Proof.
       + exists y. split; [exact Ey|]. rewrite (Hfl y E). destruct H as [[Hy Hfy]|H]; [left; split; [|exact Hfy]|right; exact H].
         apply (Permutation_in _ Hperm) in Hy. destruct Hy as [<-|Hy]; [congruence|exact Hy]. }
   assert (Hmm_ne : forall o, In o mm -> wm_id o <> wm_id m).
-  { intros o Ho E. apply Hnmk. rewrite <- (Hid o) by (rewrite ?in_app_iff; try (right; right; apply in_allmarks_iff; exists l; split; [rewrite Hlen; exact Hdl|]; rewrite <- Ex, Ehist; apply in_marks; rewrite marks_flat, flat_map_app; apply in_or_app; right; cbn [flat_map fst]; apply in_or_app; left; exact Ho); exact E).
-    apply in_allmarks_iff. exists l. split; [rewrite Hlen; exact Hdl|]. rewrite <- Ex, Ehist. apply in_marks. rewrite marks_flat, flat_map_app. apply in_or_app. right. cbn [flat_map fst]. apply in_or_app. left. exact Ho. }
+  { intros o Ho E. apply Hnmk. rewrite <- (Hid o) by (rewrite ?in_app_iff; try (right; right; apply in_allmarks_iff; exists l; split; [rewrite Hlen; exact Hdl|]; rewrite <- Ex, Ehist2; apply in_marks; rewrite marks_flat, flat_map_app; apply in_or_app; right; cbn [flat_map fst]; apply in_or_app; left; exact Ho); exact E).
+    apply in_allmarks_iff. exists l. split; [rewrite Hlen; exact Hdl|]. rewrite <- Ex, Ehist2. apply in_marks. rewrite marks_flat, flat_map_app. apply in_or_app. right. cbn [flat_map fst]. apply in_or_app. left. exact Ho. }
+  assert (Egvt' : k_gvt w' = k_gvt w) by (change (k_gvt w') with (k_gvt w4); rewrite Q7; exact Eg3).
+  (* a released message is not among the newly cancelled identities, and stays uncancelled *)
+  assert (Hghost_ok : forall i gi, i < n -> In (ent gi) (Abs.hist cont a i) -> (Z.of_N (tm (snd gi)) < k_gvt w)%Z ->
+            ~ In (Abs.mid cont (amsg (snd gi))) (Abs.ids_of cont (ent (mm, m) :: map ent g2))).
+  { intros i gi Hi Hin Ht Hids. unfold Abs.ids_of in Hids. apply in_map_iff in Hids. destruct Hids as (xo & Exo & Hxo).
+    assert (Hxo' := Hxo). change (ent (mm, m) :: map ent g2) with (map ent ((mm, m) :: g2)) in Hxo'. apply in_flat_map in Hxo'. destruct Hxo' as (e & He & Hxe). apply in_map_iff in He. destruct He as (gg & <- & Hgg).
+    cbn [ent Abs.eouts] in Hxe. apply in_map_iff in Hxe. destruct Hxe as (o & <- & Ho).
+    assert (Eo : snd gi = o).
+    { apply (ghost_not_marked a i gi l (ent (mm, m) :: map ent g2) o I Hi Hdl Hin); [|exact Hxo|symmetry; exact Exo].
+      intros e He. rewrite Eah'. apply in_or_app. right. exact He. }
+    specialize (Hmt o ltac:(destruct Hgg as [<-|Hgg]; [apply in_or_app; left; exact Ho|apply in_or_app; right; apply in_flat_map; exists gg; split; assumption])). rewrite Eg3 in Hmt. rewrite Eo in Ht. lia. }
   constructor; cbn [Abs.hist Abs.pool Abs.antis Abs.nid].
   - exact F'.
   - unfold w'. cbn [put_lp set_lps k_lps]. rewrite set_nth_length, Q5. change (k_lps w3) with (k_lps w1). rewrite El. exact Hlen.
-  - change (k_gvt w') with (k_gvt w4). rewrite Q7. change (k_gvt w3) with (k_gvt w1). rewrite Eg. exact Hg.
-  - split; [change (k_epoch w') with (k_epoch w4); rewrite Q8; change (k_epoch w3) with (k_epoch w1); rewrite Ee; exact He0|]. intros i Hi. destruct (Nat.eq_dec i l) as [->|Hne].
-    + unfold w'. rewrite (get_lp_set w4 l _ Hl4), fix_bound_epoch, Q4. fold x. rewrite Ex. apply Hel. exact Hi.
-    + rewrite (Hget i Hne). apply Hel. exact Hi.
   - unfold w'. rewrite Emm. exact Q12.
   - unfold w'. rewrite Epp. change (k_flags (put_lp w4 _ _)) with (k_flags w4). apply Q13. intros y Hy.
     assert (Hyw : In y (allprocs (k_lps w)) /\ wm_id y <> wm_id m).
     { apply in_allprocs_iff in Hy. destruct Hy as (i & Hi & H). rewrite Q5 in Hi. change (k_lps w3) with (k_lps w1) in Hi. rewrite El in Hi.
       destruct (Nat.eq_dec i l) as [->|Hne].
-      - rewrite Q1 in H. apply in_procs in H. rewrite procs_flat in H. cbn [map] in H. destruct H as [<-|H].
-        + split; [apply in_allprocs_iff; exists l; split; [exact Hi|]; rewrite <- Ex, Ehist; apply in_procs; rewrite procs_flat; cbn [map app]; left; reflexivity|].
-          intro E. unfold tyok in Hty. unfold is_init in Einit. assert (im = m) by (apply (Hid im); [rewrite !in_app_iff; right; left; apply in_allprocs_iff; exists l; split; [exact Hi|]; rewrite <- Ex, Ehist; apply in_procs; rewrite procs_flat; cbn [map app]; left; reflexivity|exact E]).
-          subst im. rewrite Einit in Hty. exact (N.lt_irrefl _ Hty).
-        + apply in_map_iff in H. destruct H as (g & <- & Hgg). split; [apply Hpin; apply in_or_app; left; exact Hgg|apply HnotIn; apply in_or_app; left; exact Hgg].
+      - rewrite Q1 in H. apply in_procs in H. rewrite procs_flat in H. apply in_map_iff in H. destruct H as (g & <- & Hgg).
+        split; [apply Hpin; apply in_or_app; left; exact Hgg|apply HnotIn; apply in_or_app; left; exact Hgg].
       - rewrite (Q2 i Hne) in H. assert (Hyw : In y (allprocs (k_lps w))) by (apply in_allprocs_iff; exists i; split; [exact Hi|]; unfold get_lp in *; change (k_lps w3) with (k_lps w1) in H; rewrite El in H; exact H).
         split; [exact Hyw|]. intro E. rewrite (Hid y ltac:(rewrite !in_app_iff; tauto) E) in H.
         destruct (Hxl i Hi) as (_ & _ & Hd & _). unfold get_lp in H. change (k_lps w3) with (k_lps w1) in H. rewrite El in H. specialize (Hd m H). fold l in Hd. congruence. }
     apply N53; tauto.
   - eapply Bridge.rs; [exact Hre|exact Hstep].
-  - intros i Hi. destruct (Nat.eq_dec i l) as [->|Hne].
-    + exists ms, im, gk. unfold w'. rewrite (get_lp_set w4 l _ Hl4), fix_bound_hist, fix_bound_base, Q1, Q3. split; [reflexivity|]. split; [exact Einit|]. split; [exact Ebase|].
-      unfold Abs.upd. rewrite Nat.eqb_refl. reflexivity.
-    + destruct (Hh i Hi) as (ms' & im' & gs' & E1 & E2 & E3 & E4). exists ms', im', gs'. rewrite (Hget i Hne). split; [exact E1|]. split; [exact E2|]. split; [exact E3|].
-      unfold Abs.upd. destruct (Nat.eqb_spec i l); [contradiction|exact E4].
+  - intros i Hi.
+    assert (Hkeep : forall gi, In (ent gi) (Abs.hist cont a i) -> (Z.of_N (tm (snd gi)) < k_gvt w)%Z -> Abs.doomedb cont a (amsg (snd gi)) = false ->
+              Abs.doomedb cont {| Abs.hist := Abs.upd (Abs.hist cont a) l (map ent (gdone ++ gk)); Abs.pool := Abs.pool cont a ++ map (Abs.em cont) (map ent g2);
+                                   Abs.antis := Abs.remove_id (Abs.mid cont (Abs.em cont (ent (mm, m)))) (Abs.antis cont a) ++ Abs.ids_of cont (ent (mm, m) :: map ent g2);
+                                   Abs.nid := Abs.nid cont a |} (amsg (snd gi)) = false).
+    { intros gi Hin Ht Hd. apply (Abs.doomedb_false cont). cbn [Abs.antis]. intro Ed. apply in_app_or in Ed. destruct Ed as [Ed|Ed].
+      - apply remove_id_sub in Ed. apply (Abs.doomedb_false cont) in Hd. exact (Hd Ed).
+      - exact (Hghost_ok i gi Hi Hin Ht Ed). }
+    destruct (Nat.eq_dec i l) as [->|Hne].
+    + exists g0, gdone, gk. unfold w'. rewrite (get_lp_set w4 l _ Hl4), fix_bound_hist, fix_bound_base, Q1, Q3. split; [reflexivity|]. split; [exact Ebase|]. split; [|split; [|exact Hshape]].
+      * unfold Abs.upd. rewrite Nat.eqb_refl. reflexivity.
+      * intros g Hgg. destruct (Hghost g Hgg) as [H1 H2]. split; [fold w'; rewrite Egvt'; exact H1|].
+        apply Hkeep; [rewrite Eah', map_app; apply in_or_app; left; apply in_or_app; left; apply in_map; exact Hgg|exact H1|exact H2].
+    + destruct (Hh i Hi) as (g0' & gdone' & gs' & E1 & E2 & E3 & E4 & E5). exists g0', gdone', gs'. rewrite (Hget i Hne). split; [exact E1|]. split; [exact E2|]. split; [|split; [|exact E5]].
+      * unfold Abs.upd. destruct (Nat.eqb_spec i l); [contradiction|exact E3].
+      * intros g Hgg. destruct (E4 g Hgg) as [H1 H2]. split; [rewrite Egvt'; exact H1|].
+        apply Hkeep; [rewrite E3, map_app; apply in_or_app; left; apply in_map; exact Hgg|exact H1|exact H2].
   - intros x0. rewrite in_app_iff, Hp. change (pend w') with (pend w4). change (k_flags w') with (k_flags w4). split.
     + intros [(y & Hy & ->)|H].
       * exists y. split; [|reflexivity]. apply Q10. left. apply HLive3. exact Hy.
@@ -1332,36 +1463,210 @@ Proof.
   - change (k_next w') with (k_next w4). rewrite Q6. change (k_next w3) with (k_next w1). rewrite En. exact Hn.
 Qed.
 
+(* ---------- fossil collection of one LP: no abstract step; the released groups become ghosts ---------- *)
+Lemma firstn_flat_app (a b : list group) : firstn (length (flat a)) (flat (a ++ b)) = flat a.
+Proof. rewrite flat_app, firstn_app, firstn_all, Nat.sub_diag, firstn_O, app_nil_r. reflexivity. Qed.
+
+Lemma fossil_groups w l (g0 gs : list group) s0 :
+  all_ok2 p w -> Forall lp_time (k_lps w) -> l < length (k_lps w) ->
+  x_hist (get_lp w l) = flat (g0 ++ gs) -> base (get_lp w l) = (length (flat g0), s0) -> (g0 = [] \/ exists ms im, g0 = [(ms, im)]) ->
+  k_err w = false -> k_err (fossil_lp w l) = false ->
+  let x' := get_lp (fossil_lp w l) l in
+  x' = get_lp w l \/
+  exists gk gu, gs = gk ++ gu /\ x_hist x' = flat gu /\ base x' = (0, replay p s0 (flat gk)) /\ (forall g, In g (g0 ++ gk) -> (Z.of_N (tm (snd g)) < k_gvt w)%Z).
+Proof.
+  intros Hok Htime Hl Eh Eb Hshape He He'. unfold fossil_lp in *. set (x := get_lp w l) in *.
+  destruct (get_ok2 p w l Hok Hl) as [Hlok Hlwf]. fold x in Hlok, Hlwf.
+  destruct (newest_below (k_gvt w) (rev (x_hist x)) (length (x_hist x))) as [past|] eqn:En; [|left; reflexivity].
+  destruct (drop_newer (x_logs x) (past + 1)) as [|[ref snap] older] eqn:Hd; [cbn in He'; discriminate|].
+  right. cbn zeta. rewrite (get_lp_set w l _ Hl).
+  destruct Hlok as (newer & r0 & s0' & El & Hs & Hsn & Hst).
+  pose proof (base_eq x newer r0 s0' El) as Eb'. rewrite Eb in Eb'. injection Eb' as <- <-.
+  assert (Hxt : lp_time x) by (rewrite Forall_forall in Htime; apply Htime; unfold x, get_lp; apply nth_In; exact Hl).
+  pose proof (fossil_releases_below p ck H_time x (k_gvt w) past ref snap older (proj1 Hxt) En Hs Hd) as Hrel.
+  pose proof (drop_newer_spec (x_logs x) (past + 1) Hs) as Hspec. rewrite Hd in Hspec. destruct Hspec as (pre0 & E0 & Hle0 & _). cbn [fst] in Hle0.
+  assert (Hin : In (ref, snap) (x_logs x)) by (rewrite E0; apply in_or_app; right; left; reflexivity).
+  assert (Hrefge : length (flat g0) <= ref) by (apply (base_least newer (length (flat g0)) s0 ref snap); [rewrite <- El; exact Hs|rewrite <- El; exact Hin]).
+  destruct (Hsn ref snap Hin) as [Hrefle Hsnap].
+  pose proof (proj2 Hlwf (ref, snap) Hin) as Hbnd. cbn [fst] in Hbnd.
+  rewrite Eh in Hbnd, Hrefle.
+  destruct (flat_g0_cut g0 gs ref Hshape Hbnd Hrefle Hrefge) as (gk & gu & Egs & Ek).
+  exists gk, gu. split; [exact Egs|]. cbn [x_hist]. split; [|split].
+  - rewrite Eh, Egs, Ek, app_assoc. apply skipn_flat_app.
+  - unfold base. cbn [x_logs]. destruct (fossil_kept p H_time x (past + 1) ref snap older Hs Hd) as (pre & Ekp). rewrite Hd in Ekp. cbn [length] in Ekp.
+    cbn [length]. rewrite Ekp, map_app. cbn [map]. rewrite last_last. cbn [fst snd]. rewrite Nat.sub_diag. f_equal.
+    rewrite Hsnap. f_equal. unfold sub. rewrite Eh, Egs.
+    assert (E1 : skipn (length (flat g0)) (flat (g0 ++ gk ++ gu)) = flat (gk ++ gu)) by apply skipn_flat_app. rewrite E1.
+    replace (ref - length (flat g0)) with (length (flat gk)) by (rewrite Ek, flat_app, app_length; lia). apply firstn_flat_app.
+  - intros g Hgg. apply Hrel. rewrite Eh, Egs, Ek, app_assoc, firstn_flat_app. apply in_procs. rewrite procs_flat. apply in_map. exact Hgg.
+Qed.
+
+Lemma stofg_app l (a b : list group) : (l < nlps p)%nat -> (forall g, In g b -> e_dest (wm_ev (snd g)) = N.of_nat l) ->
+  replay p (stofg l a) (flat b) = stofg l (a ++ b).
+Proof.
+  intros Hl Hd. unfold stofg, Abs.stof. rewrite map_app, fold_left_app, replay_flat. symmetry. apply stof_flat; assumption.
+Qed.
+
+Lemma fossil_sim w a l : R w a -> l < n ->
+  let w' := fossil_lp w l in
+  let wv := put_lp w' l (fix_bound (get_lp w' l)) in
+  full p wv -> R wv a.
+Proof.
+  intros Hr Hl w' wv F'. pose proof Hr as [F Hlen M0 N5 Hre Hh Hp Ha Hn].
+  pose proof (once_loc w F) as L.
+  assert (Hlw : l < length (k_lps w)) by (rewrite Hlen; exact Hl).
+  destruct (f_extra p w F) as [Hxp Hxl].
+  destruct (fossil_once p ck H_time w l (pend w) [] (f_ok p w F) (s_time w (f_good p w F)) Hlw (proj1 (Hxl l Hlw)) L (s_pend w (f_good p w F)))
+    as (F1 & F2 & F3 & F4 & F5 & F6 & F7 & _ & _ & F10 & _).
+  fold w' in F1, F2, F3, F4, F5, F6, F7, F10.
+  assert (Hl' : l < length (k_lps w')) by (rewrite F6; exact Hlw).
+  assert (Ee' : k_err w' = false) by (pose proof (f_err p wv F') as E; exact E).
+  destruct (Hh l Hl) as (g0 & gdone & gs & Ehist & Ebase & Eah & Hghost & Hshape).
+  assert (Hshape' : g0 = [] \/ exists ms im, g0 = [(ms, im)]) by (destruct Hshape as [(ms & im & E & _)|E]; [right; exists ms, im; exact E|left; exact E]).
+  pose proof (fossil_groups w l g0 gs (stofg l gdone) (f_ok p w F) (s_time w (f_good p w F)) Hlw Ehist Ebase Hshape' (f_err p w F) Ee') as Hfg.
+  cbn zeta in Hfg. fold w' in Hfg.
+  assert (Egetl : x_hist (get_lp wv l) = x_hist (get_lp w' l) /\ base (get_lp wv l) = base (get_lp w' l)).
+  { unfold wv. rewrite (get_lp_set w' l _ Hl'). split; [apply fix_bound_hist|apply fix_bound_base]. }
+  assert (Hget : forall i, i <> l -> get_lp wv i = get_lp w i) by (intros i Hi; unfold wv; rewrite (get_put_other w' l _ i Hi); apply F10; exact Hi).
+  assert (Hsubh : forall e, In e (x_hist (get_lp wv l)) -> In e (x_hist (get_lp w l))).
+  { intros e He. rewrite (proj1 Egetl) in He. destruct Hfg as [E|(gk & gu & Egs & Eh' & _)]; [rewrite E in He; exact He|].
+    rewrite Eh' in He. rewrite Ehist, Egs, app_assoc, flat_app. apply in_or_app. right. exact He. }
+  assert (Hlenv : length (k_lps wv) = length (k_lps w)) by (unfold wv; cbn [put_lp set_lps k_lps]; rewrite set_nth_length; exact F6).
+  assert (Hsubp : forall y, In y (allprocs (k_lps wv)) -> In y (allprocs (k_lps w))).
+  { intros y Hy. apply in_allprocs_iff in Hy. destruct Hy as (i & Hi & H). apply in_allprocs_iff. rewrite Hlenv in Hi. exists i. split; [exact Hi|].
+    destruct (Nat.eq_dec i l) as [->|Hne]; [apply Hsubh; exact H|rewrite <- (Hget i Hne); exact H]. }
+  assert (Hsubm : forall y, In y (allmarks (k_lps wv)) -> In y (allmarks (k_lps w))).
+  { intros y Hy. apply in_allmarks_iff in Hy. destruct Hy as (i & Hi & H). apply in_allmarks_iff. rewrite Hlenv in Hi. exists i. split; [exact Hi|].
+    destruct (Nat.eq_dec i l) as [->|Hne]; [apply Hsubh; exact H|rewrite <- (Hget i Hne); exact H]. }
+  assert (Efl : k_flags wv = k_flags w) by exact F3.
+  assert (Epd : pend wv = pend w) by exact F5.
+  assert (Egv : k_gvt wv = k_gvt w) by exact F2.
+  (* a processed message below the GVT is not cancelled *)
+  assert (Hlow : forall y, In y (allprocs (k_lps w)) -> (Z.of_N (tm y) < k_gvt w)%Z -> fl (k_flags w) y = 2%N).
+  { intros y Hy Ht. destruct (l_pr _ _ _ _ _ _ L y Hy) as [[_ Hpd]|[[H2 _]|[H5 _]]]; [|exact H2|exfalso; exact (N5 y Hy H5)].
+    exfalso. pose proof (s_pend w (f_good p w F) y Hpd) as Hge. unfold ge in Hge. lia. }
+  (* a processed message that is no longer retained was below the GVT *)
+  assert (Hrel : forall y, In y (allprocs (k_lps w)) -> In y (allprocs (k_lps wv)) \/ (Z.of_N (tm y) < k_gvt w)%Z).
+  { intros y Hy. apply in_allprocs_iff in Hy. destruct Hy as (i & Hi & H).
+    destruct (Nat.eq_dec i l) as [->|Hne].
+    - destruct Hfg as [E|(gk & gu & Egs & Eh' & _ & Hbel)].
+      + left. apply in_allprocs_iff. exists l. split; [rewrite Hlenv; exact Hi|]. rewrite (proj1 Egetl), E. exact H.
+      + rewrite Ehist, Egs, app_assoc, flat_app in H. apply in_app_or in H. destruct H as [H|H].
+        * right. apply in_procs in H. rewrite procs_flat in H. apply in_map_iff in H. destruct H as (g & <- & Hgg). apply Hbel. exact Hgg.
+        * left. apply in_allprocs_iff. exists l. split; [rewrite Hlenv; exact Hi|]. rewrite (proj1 Egetl), Eh'. exact H.
+    - left. apply in_allprocs_iff. exists i. split; [rewrite Hlenv; exact Hi|]. rewrite (Hget i Hne). exact H. }
+  constructor.
+  - exact F'.
+  - rewrite Hlenv. exact Hlen.
+  - rewrite Efl, Epd. intros o Ho Hf. apply M0; [apply Hsubm; exact Ho|exact Hf].
+  - rewrite Efl. intros y Hy. apply N5. apply Hsubp. exact Hy.
+  - exact Hre.
+  - intros i Hi. destruct (Nat.eq_dec i l) as [->|Hne].
+    + rewrite (proj1 Egetl), (proj2 Egetl), Egv. destruct Hfg as [E|(gk & gu & Egs & Eh' & Eb' & Hbel)].
+      * rewrite E. exists g0, gdone, gs. repeat split; try assumption; apply Hghost; assumption.
+      * exists [], (gdone ++ gk), gu. cbn [app]. split; [exact Eh'|]. split; [|split; [|split; [|right; reflexivity]]].
+        -- rewrite Eb'. change (flat []) with (@nil Worker.entry). cbn [length]. f_equal. apply stofg_app; [exact Hl|].
+           intros g Hgg. destruct (Hxl l Hlw) as (_ & _ & Hd & _). rewrite <- (Hd (snd g)); [rewrite N2Nat.id; reflexivity|].
+           rewrite Ehist, Egs. apply in_procs. rewrite procs_flat, !map_app. apply in_or_app. right. apply in_or_app. left. apply in_map. exact Hgg.
+        -- rewrite Eah, Egs, app_assoc. reflexivity.
+        -- intros g Hgg. apply in_app_or in Hgg. destruct Hgg as [Hgg|Hgg]; [apply Hghost; exact Hgg|].
+           assert (Ht : (Z.of_N (tm (snd g)) < k_gvt w)%Z) by (apply Hbel; apply in_or_app; right; exact Hgg).
+           split; [exact Ht|].
+           assert (Hy : In (snd g) (allprocs (k_lps w))).
+           { apply in_allprocs_iff. exists l. split; [exact Hlw|]. rewrite Ehist, Egs. apply in_procs. rewrite procs_flat, !map_app. apply in_or_app. right. apply in_or_app. left. apply in_map. exact Hgg. }
+           destruct (Abs.doomedb cont a (amsg (snd g))) eqn:Ed; [|reflexivity]. apply (doomed_iff w a (snd g) Hr Hy) in Ed. rewrite (Hlow _ Hy Ht) in Ed. discriminate.
+    + rewrite (Hget i Hne), Egv. apply Hh. exact Hi.
+  - intros x0. rewrite Efl, Epd. apply Hp.
+  - intros i. rewrite Ha, Efl, Epd. split; intros (j & (y & Ey & H) & ->); exists j; (split; [|reflexivity]); exists y; (split; [exact Ey|]).
+    + destruct H as [H|[Hy Hf]]; [left; exact H|right]. split; [|exact Hf]. destruct (Hrel y Hy) as [H|Ht]; [exact H|].
+      rewrite (Hlow y Hy Ht) in Hf. destruct Hf; discriminate.
+    + destruct H as [H|[Hy Hf]]; [left; exact H|right]. split; [apply Hsubp; exact Hy|exact Hf].
+  - rewrite Hn. symmetry. f_equal. exact F4.
+Qed.
+
 (* ---------- process_msg: one abstract step, or none ---------- *)
+Lemma fossil_insert w m l : fossil_lp (wq_insert w m) l = wq_insert (fossil_lp w l) m.
+Proof.
+  unfold fossil_lp. change (get_lp (wq_insert w m) l) with (get_lp w l). change (k_gvt (wq_insert w m)) with (k_gvt w).
+  destruct (newest_below (k_gvt w) (rev (x_hist (get_lp w l))) (length (x_hist (get_lp w l)))) as [past|]; [|reflexivity].
+  destruct (drop_newer (x_logs (get_lp w l)) (past + 1)) as [|[ref snap] older]; reflexivity.
+Qed.
+
+(* the extracted message put back after the (lazy) fossil collection of its LP: a state related to the same abstract state *)
+Lemma lazy_sim w a w1 m : R w a -> Permutation (pend w) (m :: pend w1) ->
+  k_flags w1 = k_flags w -> k_next w1 = k_next w -> k_gvt w1 = k_gvt w -> k_lps w1 = k_lps w -> k_err w1 = k_err w -> k_lastgvt w1 = k_lastgvt w ->
+  good w1 -> ge (k_gvt w) m ->
+  let l := N.to_nat (e_dest (wm_ev m)) in
+  let w2 := if Nat.eqb (x_epoch (get_lp w1 l)) (k_epoch w1) then w1 else let w' := fossil_lp w1 l in put_lp w' l (fix_bound (get_lp w' l)) in
+  R (wq_insert w2 m) a /\ good w2.
+Proof.
+  intros Hr Hperm Ef En Eg El Ee Elg G1 Hgm l w2. pose proof Hr as [F Hlen M0 N5 Hre Hh Hp Ha Hn].
+  assert (Hmin : In m (pend w)) by (apply (Permutation_in _ (Permutation_sym Hperm)); left; reflexivity).
+  destruct (f_extra p w F) as [Hxp Hxl]. destruct (Hxp m Hmin) as [Hty Hdl]. fold l in Hdl.
+  set (wi := wq_insert w1 m).
+  assert (Gi : forall w0, good w0 -> k_gvt w0 = k_gvt w -> good (wq_insert w0 m)).
+  { intros w0 [S2 S3 S4] E0. constructor; [|exact S3|exact S4]. intros y Hy. rewrite pend_insert in Hy. change (k_gvt (wq_insert w0 m)) with (k_gvt w0).
+    destruct Hy as [<-|Hy]; [unfold ge; rewrite E0; exact Hgm|apply S2; exact Hy]. }
+  assert (Fi : full p wi).
+  { apply (full_perm p w wi F (Gi w1 G1 Eg)); [unfold wi; rewrite pend_insert; exact Hperm|exact Ef|exact El|exact En| |exact Ee].
+    unfold gv. change (k_gvt wi) with (k_gvt w1). change (k_lastgvt wi) with (k_lastgvt w1). rewrite Eg, Elg. reflexivity. }
+  assert (Ri : R wi a) by (apply (R_perm w wi a Hr Fi); [unfold wi; rewrite pend_insert; exact Hperm|exact Ef|exact El|exact En|exact Eg]).
+  assert (Ok1 : all_ok2 p w1) by (unfold all_ok2; rewrite El; exact (f_ok p w F)).
+  assert (Hl1 : l < length (k_lps w1)) by (rewrite El; exact Hdl).
+  assert (HL1 : Loc (k_gvt w1) (k_flags w1) (m :: pend w1) (allprocs (k_lps w1)) (allmarks (k_lps w1)) (k_next w1)).
+  { rewrite Eg, Ef, El, En. eapply Loc_perm; [exact (once_loc w F)|exact Hperm|apply Permutation_refl|apply Permutation_refl]. }
+  assert (Hx1 : forall i, i < length (k_lps w1) -> lp_extra (length (k_lps w1)) i (get_lp w1 i)) by (unfold get_lp; rewrite El; exact Hxl).
+  assert (He1 : k_err w1 = false) by (rewrite Ee; exact (f_err p w F)).
+  assert (Hgm1 : ge (k_gvt w1) m) by (unfold ge; rewrite Eg; exact Hgm).
+  destruct (lazy_fossil p ck H_time w1 l m Ok1 G1 He1 Hl1 HL1 Hgm1 Hx1) as (Ok2 & G2 & He2 & Elen2 & Ep2 & Eg2 & HL2 & Hx2).
+  fold w2 in Ok2, G2, He2, Elen2, Ep2, Eg2, HL2, Hx2.
+  split; [|exact G2].
+  unfold w2 in *. destruct (Nat.eqb (x_epoch (get_lp w1 l)) (k_epoch w1)); [exact Ri|]. cbn zeta in *.
+  set (w' := fossil_lp w1 l) in *. set (w2' := put_lp w' l (fix_bound (get_lp w' l))) in *.
+  assert (Ewv : wq_insert w2' m = put_lp (fossil_lp wi l) l (fix_bound (get_lp (fossil_lp wi l) l))).
+  { unfold wi. rewrite fossil_insert. reflexivity. }
+  rewrite Ewv. apply (fossil_sim wi a l Ri); [rewrite <- Hlen; exact Hdl|]. rewrite <- Ewv.
+  assert (Elg2 : k_lastgvt w2' = k_lastgvt w1).
+  { unfold w2', w', fossil_lp. destruct (newest_below _ _ _) as [past|]; [|reflexivity]. destruct (drop_newer _ _) as [|[ref snap] older]; reflexivity. }
+  constructor.
+  - exact Ok2.
+  - apply Gi; [exact G2|rewrite Eg2; exact Eg].
+  - exact He2.
+  - unfold once. rewrite pend_insert. exact HL2.
+  - split; [|exact Hx2]. intros y Hy. rewrite pend_insert in Hy. change (k_lps (wq_insert w2' m)) with (k_lps w2'). rewrite Elen2, El.
+    apply Hxp. destruct Hy as [<-|Hy]; [exact Hmin|]. rewrite Ep2 in Hy. apply (Permutation_in _ (Permutation_sym Hperm)). right. exact Hy.
+  - change (k_gvt (wq_insert w2' m)) with (k_gvt w2'). change (k_lastgvt (wq_insert w2' m)) with (k_lastgvt w2'). rewrite Eg2, Elg2, Eg, Elg. exact (f_gvt p w F).
+Qed.
+
 Lemma process_msg_sim w a : R w a -> exists a', (a' = a \/ astep a a') /\ R (process_msg p ck w) a'.
 Proof.
-  intros Hr. pose proof Hr as [F Hlen Hg [He0 Hel] M0 N5 Hre Hh Hp Ha Hn].
+  intros Hr. pose proof Hr as [F Hlen M0 N5 Hre Hh Hp Ha Hn].
   destruct (process_msg_full p ck H_time H_type H_dest w F ltac:(rewrite Hlen; reflexivity)) as [F' _].
   revert F'. unfold process_msg.
   pose proof (extract_spec w (f_good p w F)) as Hex. pose proof (extract_perm w) as Hperm. pose proof (extract_frame w) as Hfr.
   destruct (wq_extract w) as [[m|] w1]; cbn [snd] in Hfr; cbn zeta in Hfr; destruct Hfr as (Ef & Enx & Eg & Elps & Eerr & Eep).
   2:{ intros F'. exists a. split; [left; reflexivity|]. apply (R_perm w w1 a Hr F' Hperm); assumption. }
-  destruct Hex as (G1 & _).
-  assert (Hmin : In m (pend w)) by (apply (Permutation_in _ (Permutation_sym Hperm)); left; reflexivity).
-  destruct (f_extra p w F) as [Hxp _]. destruct (Hxp m Hmin) as [_ Hdl]. rewrite Hlen in Hdl.
+  destruct Hex as (G1 & Hgm & _ & _ & _ & _ & Elg & _).
   set (l := N.to_nat (e_dest (wm_ev m))) in *.
-  assert (Eepoch : Nat.eqb (x_epoch (get_lp w1 l)) (k_epoch w1) = true).
-  { rewrite Eep, He0. unfold get_lp. rewrite Elps. fold (get_lp w l). rewrite (Hel l Hdl). reflexivity. }
-  rewrite Eepoch. unfold flag_add. fold (fl (k_flags w1) m). rewrite Ef.
-  pose proof (once_loc w F Hg) as L.
-  destruct (l_pd _ _ _ _ _ _ L m Hmin) as [[Hf Hin]|[[Hf|Hf] Hnin]]; rewrite Hf.
+  destruct (lazy_sim w a w1 m Hr Hperm Ef Enx Eg Elps Eerr Elg G1 Hgm) as [Rv G2]. fold l in Rv, G2.
+  set (w2 := if Nat.eqb (x_epoch (get_lp w1 l)) (k_epoch w1) then w1 else let w' := fossil_lp w1 l in put_lp w' l (fix_bound (get_lp w' l))) in *.
+  set (wv := wq_insert w2 m) in *.
+  assert (Hpv : Permutation (pend wv) (m :: pend w2)) by (unfold wv; rewrite pend_insert; apply Permutation_refl).
+  assert (Hmin : In m (pend wv)) by (unfold wv; rewrite pend_insert; left; reflexivity).
+  unfold flag_add. fold (fl (k_flags w2) m).
+  pose proof (once_loc wv (r_full _ _ Rv)) as L.
+  destruct (l_pd _ _ _ _ _ _ L m Hmin) as [[Hf Hin]|[[Hf|Hf] Hnin]]; change (k_flags wv) with (k_flags w2) in Hf; rewrite Hf.
   - (* the notice of a processed message *)
     change (has 3 FLAG_ANTI) with true. change (N.eqb 3 (FLAG_ANTI + FLAG_PROC)) with true. change (m32 (3 + FLAG_PROC)) with 5%N. cbn iota.
-    rewrite <- Ef.
-    destruct (anti_index m (x_hist (get_lp (set_flags w1 (flag_set (k_flags w1) (wm_id m) 5)) l))) as [past|] eqn:Ea.
-    + intros F'. destruct (sim_cancel w a w1 m Hr Hperm Ef Enx Eg Elps Eep Hf past Ea F') as (a' & Hs & Hr'). exists a'. split; [right; exact Hs|exact Hr'].
+    destruct (anti_index m (x_hist (get_lp (set_flags w2 (flag_set (k_flags w2) (wm_id m) 5)) l))) as [past|] eqn:Ea.
+    + intros F'. destruct (sim_cancel wv a w2 m Rv Hpv eq_refl eq_refl eq_refl eq_refl Hf past Ea F') as (a' & Hs & Hr'). exists a'. split; [right; exact Hs|exact Hr'].
     + intros F'. exfalso. pose proof (f_err p _ F') as He. cbn in He. discriminate.
   - (* an ordinary message *)
-    change (has 0 FLAG_ANTI) with false. change (m32 (0 + FLAG_PROC)) with 2%N. cbn iota. rewrite <- Ef.
-    intros F'. destruct (sim_process w a w1 m Hr Hperm Ef Enx Eg Elps Eep Eerr G1 Hf F') as (a' & Hs & Hr'). exists a'. split; [right; exact Hs|exact Hr'].
+    change (has 0 FLAG_ANTI) with false. change (m32 (0 + FLAG_PROC)) with 2%N. cbn iota.
+    intros F'. destruct (sim_process wv a w2 m Rv Hpv eq_refl eq_refl eq_refl eq_refl eq_refl G2 Hf F') as (a' & Hs & Hr'). exists a'. split; [right; exact Hs|exact Hr'].
   - (* cancelled while pending *)
-    change (has 1 FLAG_ANTI) with true. change (N.eqb 1 (FLAG_ANTI + FLAG_PROC)) with false. change (m32 (1 + FLAG_PROC)) with 3%N. cbn iota. rewrite <- Ef.
-    intros F'. destruct (sim_drop w a w1 m Hr Hperm Ef Enx Eg Elps Eep Hf F') as (a' & Hs & Hr'). exists a'. split; [right; exact Hs|exact Hr'].
+    change (has 1 FLAG_ANTI) with true. change (N.eqb 1 (FLAG_ANTI + FLAG_PROC)) with false. change (m32 (1 + FLAG_PROC)) with 3%N. cbn iota.
+    intros F'. destruct (sim_drop wv a w2 m Rv Hpv eq_refl eq_refl eq_refl eq_refl Hf F') as (a' & Hs & Hr'). exists a'. split; [right; exact Hs|exact Hr'].
 Qed.
 
 (* ---------- the initial state ---------- *)
@@ -1419,17 +1724,15 @@ Qed.
 Lemma R_init : R (w_init p) (Bridge.a0 cont init0 N0).
 Proof.
   destruct (w_init_full p H_time H_type H_dest (fun me e => app_init p me e Htypes)) as [F Hlen].
-  destruct (w_init_ini p H_time H_type H_dest (fun me e => app_init p me e Htypes)) as [(_ & _ & _ & Hgv) _].
-  destruct w_init_ini2 as (E0 & P0 & P2 & PM & PH). unfold gv in Hgv. injection Hgv as Hg _.
+  destruct w_init_ini2 as (E0 & P0 & P2 & PM & PH).
   constructor; cbn [Bridge.a0 Abs.hist Abs.pool Abs.antis Abs.nid].
   - exact F.
   - exact Hlen.
-  - exact Hg.
-  - split; [exact E0|]. intros l Hl. destruct (PH l ltac:(rewrite Hlen; exact Hl)) as (ms & im & _ & _ & _ & E). exact E.
   - intros o Ho _. apply PM. exact Ho.
   - intros y Hy. rewrite (P2 y Hy). discriminate.
   - apply Bridge.r0.
-  - intros l Hl. destruct (PH l ltac:(rewrite Hlen; exact Hl)) as (ms & im & E1 & E2 & E3 & _). exists ms, im, []. repeat split; assumption.
+  - intros l Hl. destruct (PH l ltac:(rewrite Hlen; exact Hl)) as (ms & im & E1 & E2 & E3 & _). exists [(ms, im)], [], []. split; [exact E1|]. split; [|split; [reflexivity|split; [intros g []|left; exists ms, im; repeat split; assumption]]].
+    rewrite E3. unfold flat. cbn [flat_map app]. rewrite app_nil_r. unfold flat1. rewrite app_length, map_length. cbn [length fst snd]. f_equal. lia.
   - intros x0. unfold init0. rewrite in_map_iff. split.
     + intros (y & <- & Hy). exists y. split; [split; [exact Hy|left; apply P0; exact Hy]|reflexivity].
     + intros (y & [Hy _] & ->). exists y. split; [reflexivity|exact Hy].
@@ -1437,9 +1740,7 @@ Proof.
   - reflexivity.
 Qed.
 
-(* ---------- every script without GVT announcements ---------- *)
-Definition no_gvt_op (o : wop) : bool := match o with OpG _ => false | _ => true end.
-
+(* ---------- every script ---------- *)
 Lemma iter_sim k : forall w a, R w a -> exists a', R (iter k (process_msg p ck) w) a'.
 Proof.
   induction k as [|k IH]; intros w a Hr; cbn [iter]; [exists a; exact Hr|].
@@ -1458,59 +1759,90 @@ Proof.
   destruct (process_msg_sim _ a Hr1) as (a1 & _ & Hr2). exact (IH _ a1 Hr2).
 Qed.
 
-Lemma wstep_sim w a o : no_gvt_op o = true -> R w a -> exists a', R (wstep p ck w o) a'.
+(* a GVT announcement: no abstract step; the new value is at or above the old one, so released messages stay below it *)
+Lemma announce_sim d w a : R w a -> R (announce d w) a.
 Proof.
-  intros Ho Hr. pose proof (r_full _ _ Hr) as F. pose proof (r_len _ _ Hr) as Hlen.
-  destruct o as [k|k|i| |d|fuel]; cbn [wstep]; try discriminate.
+  intros Hr. destruct (announce_full p ck d w (r_full _ _ Hr)) as [Fa _].
+  pose proof (transfer_sim w a Hr) as Hr1. revert Fa. unfold announce, wq_peek. set (w1 := wq_transfer w) in *.
+  destruct (min_held (k_held w1) (match k_heap w1 with [] => None | m :: _ => Some (e_t (wm_ev m)) end)) as [t|]; [|intros _; exact Hr1].
+  destruct (Z.ltb_spec (Z.of_N t - Z.of_N d) (k_lastgvt w1)) as [Hlt|Hge]; cbn [orb]; [intros _; exact Hr1|].
+  destruct (Z.leb (Z.of_N t - Z.of_N d) 0); [intros _; exact Hr1|].
+  intros Fa. destruct Hr1 as [F1 Hlen M0 N5 Hre Hh Hp Ha Hn]. constructor; try assumption.
+  intros l Hl. destruct (Hh l Hl) as (g0 & gdone & gs & E1 & E2 & E3 & E4 & E5). exists g0, gdone, gs. split; [exact E1|]. split; [exact E2|]. split; [exact E3|]. split; [|exact E5].
+  intros g Hgg. destruct (E4 g Hgg) as [H1 H2]. split; [|exact H2]. cbn [k_gvt]. pose proof (f_gvt p w1 F1). lia.
+Qed.
+
+Lemma wstep_sim w a o : R w a -> exists a', R (wstep p ck w o) a'.
+Proof.
+  intros Hr. pose proof (r_full _ _ Hr) as F. pose proof (r_len _ _ Hr) as Hlen.
+  destruct o as [k|k|i| |d|fuel]; cbn [wstep].
   - apply (iter_sim k w a Hr).
   - exists a. destruct (hold_frame k w) as (F1 & F2 & F3 & F4 & F5 & F6). unfold gv in F5. injection F5 as F5 _.
-    apply (R_perm w (hold k w) a Hr); try assumption; [|apply hold_epoch].
+    apply (R_perm w (hold k w) a Hr); try assumption.
     apply (full_perm p w); try assumption; [apply (hold_good k w (f_good p w F))|unfold gv; destruct (hold_frame k w) as (_ & _ & _ & _ & G5 & _); exact G5].
   - exists a. destruct (unhold_frame i w) as (F1 & F2 & F3 & F4 & F5 & F6). pose proof F5 as G5. unfold gv in F5. injection F5 as F5 _.
-    apply (R_perm w (unhold i w) a Hr); try assumption; [|apply unhold_epoch].
+    apply (R_perm w (unhold i w) a Hr); try assumption.
     apply (full_perm p w); try assumption. apply (unhold_good i w (f_good p w F)).
   - exists a. destruct (unhold_all_frame w) as (F1 & F2 & F3 & F4 & F5 & F6). pose proof F5 as G5. unfold gv in F5. injection F5 as F5 _.
-    apply (R_perm w (unhold_all w) a Hr); try assumption; [|apply unhold_all_epoch].
+    apply (R_perm w (unhold_all w) a Hr); try assumption.
     apply (full_perm p w); try assumption. apply (unhold_all_good w (f_good p w F)).
+  - exists a. apply announce_sim. exact Hr.
   - destruct (unhold_all_frame w) as (F1 & F2 & F3 & F4 & F5 & F6). pose proof F5 as G5. unfold gv in F5. injection F5 as F5 _.
     assert (Hr1 : R (unhold_all w) a).
-    { apply (R_perm w (unhold_all w) a Hr); try assumption; [|apply unhold_all_epoch]. apply (full_perm p w); try assumption. apply (unhold_all_good w (f_good p w F)). }
+    { apply (R_perm w (unhold_all w) a Hr); try assumption. apply (full_perm p w); try assumption. apply (unhold_all_good w (f_good p w F)). }
     apply (run_out_sim fuel _ a Hr1).
 Qed.
 
-Theorem worker_refines_abstract (ops : list wop) : forallb no_gvt_op ops = true ->
-  exists a, R (fold_left (wstep p ck) ops (w_init p)) a.
+(* every script of the driver -- processing, holding and releasing messages, GVT announcements (and the fossil collections they trigger),
+   running the queue out -- keeps the worker related to a reachable state of the abstract Time Warp machine *)
+Theorem worker_refines_abstract (ops : list wop) : exists a, R (fold_left (wstep p ck) ops (w_init p)) a.
 Proof.
-  assert (G : forall ops w a, forallb no_gvt_op ops = true -> R w a -> exists a', R (fold_left (wstep p ck) ops w) a').
-  { induction ops0 as [|o r IH]; intros w a Hn Hr; cbn [fold_left]; [exists a; exact Hr|].
-    cbn [forallb] in Hn. apply andb_true_iff in Hn. destruct Hn as [Ho Hn]. destruct (wstep_sim w a o Ho Hr) as (a1 & Hr1). exact (IH _ a1 Hn Hr1). }
-  intros Hn. exact (G ops (w_init p) _ Hn R_init).
+  assert (G : forall ops w a, R w a -> exists a', R (fold_left (wstep p ck) ops w) a').
+  { induction ops0 as [|o r IH]; intros w a Hr; cbn [fold_left]; [exists a; exact Hr|].
+    destruct (wstep_sim w a o Hr) as (a1 & Hr1). exact (IH _ a1 Hr1). }
+  exact (G ops (w_init p) _ R_init).
 Qed.
 
 (* ---------- the payoff: process.c's histories below any valid bound are the sequential execution ---------- *)
 Definition evc (y : wmsg) : cont := cont_of (wm_ev y).
-(* the processed messages of an LP, LP_INIT excluded *)
-Definition processed (w : worker) (l : nat) : list wmsg := tl (procs_of (x_hist (get_lp w l))).
+(* the processed messages an LP still retains, LP_INIT excluded *)
+Definition retained (w : worker) (l : nat) : list wmsg :=
+  filter (fun y => negb (N.eqb (e_type (wm_ev y)) LP_INIT_TYPE)) (procs_of (x_hist (get_lp w l))).
+
+Lemma retained_groups w l (g0 gs : list group) : x_hist (get_lp w l) = flat (g0 ++ gs) -> fst (base (get_lp w l)) = length (flat g0) ->
+  lp_extra (length (k_lps w)) l (get_lp w l) -> ((exists ms im, g0 = [(ms, im)] /\ is_init im) \/ g0 = []) -> retained w l = map snd gs.
+Proof.
+  intros Eh Eb (_ & Hty & _) Hshape. unfold retained. rewrite Eh, procs_flat, map_app, filter_app.
+  assert (E0 : filter (fun y => negb (N.eqb (e_type (wm_ev y)) LP_INIT_TYPE)) (map snd g0) = []).
+  { destruct Hshape as [(ms & im & -> & Hi)| ->]; [|reflexivity]. cbn [map filter snd]. unfold is_init in Hi. rewrite Hi, N.eqb_refl. reflexivity. }
+  rewrite E0. cbn [app].
+  assert (Hall : forall y, In y (map snd gs) -> negb (N.eqb (e_type (wm_ev y)) LP_INIT_TYPE) = true).
+  { intros y Hy. assert (Ht : tyok y).
+    { apply Hty. rewrite Eb, Eh. assert (E1 : skipn (length (flat g0)) (flat (g0 ++ gs)) = flat gs) by apply skipn_flat_app. rewrite E1. apply in_procs. rewrite procs_flat. exact Hy. }
+    unfold tyok in Ht. apply negb_true_iff. apply N.eqb_neq. lia. }
+  induction (map snd gs) as [|y r IH]; [reflexivity|]. cbn [filter]. rewrite (Hall y (or_introl eq_refl)). f_equal. apply IH. intros z Hz. apply Hall. right. exact Hz.
+Qed.
 
 Theorem worker_below_bound_is_sequential (ops : list wop) (below : cont -> bool) :
-  forallb no_gvt_op ops = true ->
   (forall c1 c2, ~ Abs.tlt cont tltb c2 c1 -> below c2 = true -> below c1 = true) ->
   let w := fold_left (wstep p ck) ops (w_init p) in
   (forall y, In y (pend w) -> below (evc y) = false) ->
   forall tr, Peel.seqrun cont (Abs.clt cont cltb) lpstate (Bridge.handle_g cont lpstate (ahandle p) below) (AppAbs.s0 p) (Bridge.Pg cont init0 below) tr ->
-  forall l, l < n -> Peel.proj cont l tr = map evc (filter (fun y => below (evc y)) (processed w l)).
+  forall l, l < n -> exists released, (forall y, In y released -> (Z.of_N (tm y) < k_gvt w)%Z) /\
+    Peel.proj cont l tr = map evc (filter (fun y => below (evc y)) (released ++ retained w l)).
 Proof.
-  intros Hn Hb w Hpend tr Hrun l Hl. destruct (worker_refines_abstract ops Hn) as (a & Hr). fold w in Hr.
-  pose proof Hr as [F Hlen Hg _ M0 N5 Hre Hh Hp Ha _].
+  intros Hb w Hpend tr Hrun l Hl. destruct (worker_refines_abstract ops) as (a & Hr). fold w in Hr.
+  pose proof Hr as [F Hlen M0 N5 Hre Hh Hp Ha _].
   assert (G : Bridge.gvt_ok cont below a).
   { constructor.
     - intros x0 Hx. apply Hp in Hx. destruct Hx as (y & [Hy _] & ->). unfold Bridge.belowm. cbn [amsg Abs.mc]. apply Hpend. exact Hy.
     - intros l0 e He Hd. destruct (Nat.lt_ge_cases l0 n) as [Hl0|Hl0].
-      + destruct (Hh l0 Hl0) as (ms & im & gs & E1 & _ & _ & E4). rewrite E4 in He. apply in_map_iff in He. destruct He as (g & <- & Hgg).
+      + destruct (Hh l0 Hl0) as (g0 & gdone & gs & E1 & _ & E4 & Hghost & _). rewrite E4 in He. apply in_map_iff in He. destruct He as (g & <- & Hgg).
+        cbn [ent Abs.em snd] in Hd. apply in_app_or in Hgg. destruct Hgg as [Hgg|Hgg]; [destruct (Hghost g Hgg) as [_ Hnd]; congruence|].
         assert (Hpr : In (snd g) (allprocs (k_lps w))).
-        { apply in_allprocs_iff. exists l0. split; [rewrite Hlen; exact Hl0|]. rewrite E1. apply in_procs. rewrite procs_flat. cbn [map]. right. apply in_map. exact Hgg. }
-        cbn [ent Abs.em snd] in Hd. apply (doomed_iff w a (snd g) Hr Hpr) in Hd.
-        destruct (l_pr _ _ _ _ _ _ (once_loc w F Hg) (snd g) Hpr) as [[_ Hin]|[[H2 _]|[H5 _]]]; [|congruence|congruence].
+        { apply in_allprocs_iff. exists l0. split; [rewrite Hlen; exact Hl0|]. rewrite E1. apply in_procs. rewrite procs_flat, map_app. apply in_or_app. right. apply in_map. exact Hgg. }
+        apply (doomed_iff w a (snd g) Hr Hpr) in Hd.
+        destruct (l_pr _ _ _ _ _ _ (once_loc w F) (snd g) Hpr) as [[_ Hin]|[[H2 _]|[H5 _]]]; [|congruence|congruence].
         unfold Bridge.belowe, Abs.con. cbn [ent Abs.em snd amsg Abs.mc]. apply Hpend. exact Hin.
       + exfalso. (* histories of indexes beyond n are empty in every reachable abstract state *)
         assert (Hemp : forall a0, areach a0 -> forall k, n <= k -> Abs.hist cont a0 k = []).
@@ -1521,21 +1853,39 @@ Proof.
              (avalid p Hvalid) init0 ltac:(intros x0 Hx; unfold init0 in Hx; apply in_map_iff in Hx; destruct Hx as (y & <- & Hy); cbn [amsg Abs.mdest];
                                           destruct (w_init_full p H_time H_type H_dest (fun me e => app_init p me e Htypes)) as [F0 Hl0]; destruct (f_extra p _ F0) as [Hxp _]; destruct (Hxp y Hy) as [_ Hd]; rewrite Hl0 in Hd; exact Hd)
              below Hb init0_nodup N0 a init0_lt Hre G tr Hrun l Hl).
-  unfold Bridge.Hg. destruct (Hh l Hl) as (ms & im & gs & E1 & _ & _ & E4). rewrite E4. unfold processed. rewrite E1, procs_flat. cbn [map tl].
-  clear. induction gs as [|g gs IH]; [reflexivity|]. cbn [map filter]. change (Bridge.belowe cont below (ent g)) with (below (evc (snd g))).
+  unfold Bridge.Hg. destruct (Hh l Hl) as (g0 & gdone & gs & E1 & E2 & E4 & Hghost & Hshape). rewrite E4.
+  exists (map snd gdone). split.
+  { intros y Hy. apply in_map_iff in Hy. destruct Hy as (g & <- & Hgg). apply (Hghost g Hgg). }
+  assert (Hlw : l < length (k_lps w)) by (rewrite Hlen; exact Hl).
+  rewrite (retained_groups w l g0 gs E1 ltac:(rewrite E2; reflexivity) (proj2 (f_extra p w F) l Hlw)
+             ltac:(destruct Hshape as [(ms & im & E & Hi & _)|E]; [left; exists ms, im; split; assumption|right; exact E])).
+  rewrite <- map_app.
+  clear. induction (gdone ++ gs) as [|g r IH]; [reflexivity|]. cbn [map filter]. change (Bridge.belowe cont below (ent g)) with (below (evc (snd g))).
   destruct (below (evc (snd g))); cbn [map]; [change (Abs.con cont (ent g)) with (evc (snd g)); f_equal; exact IH|exact IH].
 Qed.
 
-(* at quiescence (nothing pending anywhere) every LP has processed exactly its sequential dispatch sequence, in that order *)
+(* without a GVT above 0 nothing has been released: the retained history itself is the sequential one *)
+Corollary worker_below_bound_gvt0 (ops : list wop) (below : cont -> bool) :
+  (forall c1 c2, ~ Abs.tlt cont tltb c2 c1 -> below c2 = true -> below c1 = true) ->
+  let w := fold_left (wstep p ck) ops (w_init p) in
+  (k_gvt w <= 0)%Z -> (forall y, In y (pend w) -> below (evc y) = false) ->
+  forall tr, Peel.seqrun cont (Abs.clt cont cltb) lpstate (Bridge.handle_g cont lpstate (ahandle p) below) (AppAbs.s0 p) (Bridge.Pg cont init0 below) tr ->
+  forall l, l < n -> Peel.proj cont l tr = map evc (filter (fun y => below (evc y)) (retained w l)).
+Proof.
+  intros Hb w Hg Hpend tr Hrun l Hl. destruct (worker_below_bound_is_sequential ops below Hb Hpend tr Hrun l Hl) as (rel & Hrel & E).
+  fold w in Hrel, E. destruct rel as [|y r]; [exact E|]. specialize (Hrel y (or_introl eq_refl)). lia.
+Qed.
+
+(* at quiescence (nothing pending anywhere) every LP has processed exactly its sequential dispatch sequence, in that order:
+   what fossil collection has released, followed by what is retained *)
 Corollary worker_quiescent_is_sequential (ops : list wop) :
-  forallb no_gvt_op ops = true ->
   let w := fold_left (wstep p ck) ops (w_init p) in
   pend w = [] ->
   forall tr, Peel.seqrun cont (Abs.clt cont cltb) lpstate (Bridge.handle_g cont lpstate (ahandle p) (fun _ => true)) (AppAbs.s0 p) (Bridge.Pg cont init0 (fun _ => true)) tr ->
-  forall l, l < n -> Peel.proj cont l tr = map evc (processed w l).
+  forall l, l < n -> exists released, (forall y, In y released -> (Z.of_N (tm y) < k_gvt w)%Z) /\ Peel.proj cont l tr = map evc (released ++ retained w l).
 Proof.
-  intros Hn w Hq tr Hrun l Hl.
-  rewrite (worker_below_bound_is_sequential ops (fun _ => true) Hn (fun _ _ _ _ => eq_refl) ltac:(fold w; rewrite Hq; intros y []) tr Hrun l Hl).
-  fold w. f_equal. clear. induction (processed w l) as [|y r IH]; [reflexivity|]. cbn [filter]. rewrite IH. reflexivity.
+  intros w Hq tr Hrun l Hl.
+  destruct (worker_below_bound_is_sequential ops (fun _ => true) (fun _ _ _ _ => eq_refl) ltac:(fold w; rewrite Hq; intros y []) tr Hrun l Hl) as (rel & Hrel & E).
+  fold w in Hrel, E. exists rel. split; [exact Hrel|]. rewrite E. f_equal. clear. induction (rel ++ retained w l) as [|y r IH]; [reflexivity|]. cbn [filter]. rewrite IH. reflexivity.
 Qed.
 End Sim.
